@@ -4,9 +4,12 @@ Correspondence of lean/Hgxv/Model/C06*.lean (content-level model of save.py / lo
 hypergraphx.readwrite.* and independent property oracles on the implementation."""
 import copy
 import json
+import random
 import struct
+import zlib
 from fractions import Fraction
 import os
+import pickle
 import shutil
 import signal
 import tempfile
@@ -28,7 +31,23 @@ RULE = ("random objects of the four container classes built by histories of add_
         "add_node, then removals / set_weight / metadata edits), are compared again, and the mutated loaded object "
         "is saved and loaded once more (same or other format); generated .hgr files (comments, blank lines, "
         "multiple blanks, node-weight lines, with/without weights) and HIF documents (three record kinds, shared "
-        "incidence sets, nodes / edges without incidences). A case is distinct by (kind, type, digest or file text); "
+        "incidence sets, nodes / edges without incidences). SIZE is a dimension: every run also builds, from compact "
+        "recipes, each of the four types with more than 10000 records (1 + nodes + hyperedges), one more object beyond "
+        "5000 records, objects with exactly 4095 / 4096 / 4097 and 8191..8193 records (thorough: all six, beyond 5000 and "
+        "beyond 65536 records for every type), and objects in which ONE size sits at 255 / 256 / 257 or 4095 / 4096 / 4097 "
+        "(thorough: also 127..129, 511..513, 999..1001, 1023..1025, 8191..8193, 9999..10001, 65535..65537): number of "
+        "nodes, of hyperedges, members of one hyperedge, entries of one node's / hyperedge's / the hypergraph's metadata, "
+        "characters of labels / layer names (labels that differ in their last or first character only), characters / "
+        "elements / keys of metadata values, times of one node set / layers / isolated nodes only, nesting depth of a "
+        "value (<= 257); unsorted non-contiguous labels, temporary items removed again; both formats, the history after "
+        "load as above; .hgr files with 255..8193 (one beyond 5000; thorough 65537 / 70000+) hyperedge lines / nodes on one "
+        "line / comment lines in a row / node-weight lines / characters of a comment line, HIF documents with 255..4097 "
+        "(thorough ..65537) node records / edges / incidences of one edge / edges sharing one set / edges without "
+        "incidences / characters of the names. Every label, time, layer name and weight reaches the implementation as a "
+        "fresh equal object, node sets travel as tuple / list / set / frozenset / dict / dict view / generator / iterator, "
+        "part of the histories goes through add_edges batches and through the constructor (edge_list, weights, "
+        "hypergraph / node / edge metadata); collections handed in are overwritten after the call. "
+        "A case is distinct by (kind, type, digest or file text or recipe); "
         "non-trivial: an object with >= 1 isolated node, >= 2 hyperedges and non-empty metadata somewhere; a .hgr file "
         "with a comment or blank line and >= 2 hyperedges; a HIF document with a shared incidence set or an edge "
         "without incidences")
@@ -47,14 +66,28 @@ ASSUMPTIONS = ["node labels, layer names and metadata are JSON-representable (st
                "arise from removal defects of C01-C04, are skipped and counted",
                ".hgr: positive integer labels, single blank in the header line, weighted files list distinct node sets",
                "HIF: network-type undirected / asc / absent, all three record lists present, distinct (edge,node) pairs",
+               "objects beyond 1500 (thorough 2500) records: every oracle of the property runs in full in Python, the file is "
+               "compared record by record with the record list the model's save is known to write (expected_records), its "
+               "FRAMING ([, one separator between neighbouring records, ]) goes to the model in full (driver command "
+               "frame: readText / writeText), and the model's wf / save / load / populate-expose and its add_node / add_edge "
+               "replay run on a SAMPLED sub-content (records around positions 256, 1000, 1024, 4096, 8192, 10000, 16384, "
+               "65536 of the file, the first and last two nodes / hyperedges, two dozen random ones, everything the later "
+               "history names, closed under membership); the three objects with 4095 / 4096 / 4097 records go through "
+               "the model whole in the thorough tier. .hgr files beyond 1100 (4200) hyperedge lines or 5000 (20000) tokens "
+               "and HIF documents with an incidence set beyond 300 nodes, beyond 3000 (12000) incidences or 4200 (12000) "
+               "records are checked by the Python oracles only (the list-based model functions are quadratic / cubic)",
+               "two objects loaded from one file share nothing with each other nor with the saved object; loading a file "
+               "again after the first loaded object was used gives the first result again",
                "labels / layer names are mapped to their rank, metadata keys/values to pool indices before they reach the "
                "model; weights reach the model as exact integers 4*w (any magnitude); float weights that are no "
                "multiple of 1/4 as injective opaque codes (the model stores and compares weights on the save/load "
                "path; histories in which such weights add up are compared with the twin object only)"]
 TRUSTED = ["json.dump/json.load and pickle.dump/pickle.load are faithful on JSON-representable values (tuples come back as lists)",
            "str.strip / str.split / int of the .hgr tokeniser (the harness tokenises the same text for the model)",
+           "json.JSONDecoder.raw_decode as the scanner of ONE top-level value when the saved text is cut into pieces "
+           "([ , value ]) for the model's framing grammar",
            "float weights k/4 of small magnitude add exactly in binary64; Python int arithmetic is exact"]
-BUDGET_S = {"quick": 50, "thorough": 800}
+BUDGET_S = {"quick": 50, "thorough": 900}
 
 TYPES = ["H", "D", "T", "M"]
 TNAME = {"H": "Hypergraph", "D": "DirectedHypergraph", "T": "TemporalHypergraph", "M": "MultiplexHypergraph"}
@@ -101,17 +134,18 @@ VKEY = {norm(v): i for i, v in enumerate(VALS)}
 assert len(VKEY) == len(VALS)
 
 BIG_INTS = [2 ** 53 + 1, 2 ** 53 - 1, 2 ** 53, 2 ** 63, 2 ** 63 - 1, 2 ** 64 + 3, -(2 ** 53 + 1), -(2 ** 63) - 1,
-            10 ** 18 + 1, 10 ** 30 + 7]
+            10 ** 18 + 1, 10 ** 30 + 7, 256, 257, 65536, 2 ** 31, 2 ** 32, -(2 ** 31) - 1]
 ODD_FLOATS = [0.1, 1 / 3, 2.7, -0.3, 1e-7, 1e300, 5e-324, 1.0000000000000002, 2.0 ** 53, 2.0 ** 70, 1e16, 123456.789,
               -1e-300, 0.30000000000000004, 9007199254740994.0]
 QUARTERS = [1, 2, 3, 0.25, 0.5, 1.75, 2.5, 6, -1, 0, 1.0, 2.0, 3.0, 6.0, 0.0, -1.0]
 STR_LABELS = ["a", "b", "ab", "B", "c1", "c10", "c2", "d", "e e", "\u00e9", "z", "10", "9",
               "", " ", "0", "1", "01", "-1", "1.0", "\u00fc\n", "a\"b", "back\\slash", "\u0000", "\U0001f600", "x" * 3000,
               "True", "None", "null"]
-INT_LABELS = list(range(0, 30)) + [-1, -7, 2 ** 53 + 1, 2 ** 53, 2 ** 63, 2 ** 64 + 1, 10 ** 25]
+INT_LABELS = list(range(0, 30)) + [-1, -7, 2 ** 53 + 1, 2 ** 53, 2 ** 63, 2 ** 64 + 1, 10 ** 25,
+                                   255, 256, 257, 65535, 65536, 2 ** 31 - 1, 2 ** 31, 2 ** 32, -256, -257]
 STR_LAYERS = ["L0", "L1", "social", "z", "", "0", "1", "\u00e9 \u00fc", "l\"q\\", "\U0001f600"]
-INT_LAYERS = [0, 1, 2, 3, 4, -1, 2 ** 53 + 1, 2 ** 64]
-TIMES = [0, 1, 2, 5, 40, 0, 1, 2, 2 ** 53 + 1, 2 ** 63, 10 ** 20]
+INT_LAYERS = [0, 1, 2, 3, 4, -1, 2 ** 53 + 1, 2 ** 64, 256, 257, 2 ** 31, 2 ** 32]
+TIMES = [0, 1, 2, 5, 40, 0, 1, 2, 2 ** 53 + 1, 2 ** 63, 10 ** 20, 0, 1, 2, 255, 256, 257, 65535, 65536, 2 ** 31, 2 ** 32 + 1]
 OPAQUE = 2 ** 1100      # codes of float weights that are no multiples of 1/4 (above 4 * any finite float)
 
 
@@ -241,19 +275,46 @@ def gen_case(rng, T=None):
             keys.append(k)
             return ("edge", k, wt(), gen_meta(rng, reserved=not late) if rng.random() < 0.8 else None)
         if r < 0.62:
+            if rng.random() < 0.25:
+                return gen_bulk(late)
             return ("node", rng.choice(names), gen_meta(rng, 0.3, reserved=False) if rng.random() < 0.8 else None)
         if r < 0.70:
             return ("rmedge", rng.choice(keys))
         if r < 0.76:
             return ("rmnode", rng.choice(labels), rng.random() < 0.3)
         if r < 0.82:
+            if rng.random() < 0.35:
+                return ("nattr", rng.choice(labels), rng.choice(UKEYS[2:]), copy.deepcopy(rng.choice(VALS)))
             return ("nmeta", rng.choice(labels), gen_meta(rng, 0.2, reserved=False))
         if r < 0.90:
             return ("emeta", rng.choice(keys), gen_meta(rng, 0.2))
         if r < 0.95:
             return ("setw", rng.choice(keys), wt() if weighted else 1)
+        if late and rng.random() < 0.3:
+            return ("hattr", rng.choice(UKEYS[2:] + ["weight"]), copy.deepcopy(rng.choice(VALS)))
         return ("eattr", rng.choice(keys), rng.choice(UKEYS[2:] + list(RKEYS)), copy.deepcopy(rng.choice(VALS)))
 
+    def gen_bulk(late=False):
+        """a batch for add_edges / the constructor: 1-4 hyperedges with distinct keys (some may exist already), weights
+        given iff the object is weighted (or left out: every weight is 1), a metadata list or none"""
+        names = labels + xlabels if late else labels
+        ks = []
+        for _ in range(rng.randint(1, 4)):
+            k = rng.choice(keys) if keys and rng.random() < 0.2 else key(names)
+            # (TemporalHypergraph.add_edges refuses a weighted batch that repeats a node set, also at another time)
+            if all(canon_key(T, k) != canon_key(T, q) and (T != "T" or canon_key(T, k)[0] != canon_key(T, q)[0]) for q in ks):
+                ks.append(k)
+        keys.extend(ks)
+        ws = [gen_weight(rng, wreg) for _ in ks] if weighted and rng.random() < 0.8 else None
+        mds = [gen_meta(rng, reserved=not late) for _ in ks] if rng.random() < 0.6 else None
+        return ("bulk", ks, ws, mds)
+
+    ctor = None
+    if rng.random() < 0.12:
+        # part of the content goes through the constructor
+        ctor = {"hmeta": gen_meta(rng, 0.3, reserved=False) if rng.random() < 0.5 else None,
+                "nmeta": [[n, gen_meta(rng, 0.3, reserved=False)] for n in rng.sample(labels, rng.randint(0, min(3, n)))],
+                "bulk": list(gen_bulk()[1:]) if rng.random() < 0.8 else None}
     for _ in range(rng.randint(0, 3)):
         ops.append(gen_op(0.6))
     for _ in range(rng.randint(0, 8)):
@@ -279,12 +340,310 @@ def gen_case(rng, T=None):
         ops.append(("node", rng.choice(labels), gen_meta(rng, 0.3, reserved=False)))
     case = {"T": T, "weighted": weighted, "wreg": wreg, "labels": labels, "xlabels": xlabels, "layers": list(layers),
             "ops": ops}
+    if ctor:
+        case["ctor"] = ctor
+    if rng.random() < 0.3:
+        case["reload"] = True          # a second load kept aside while the first one is used, a third load afterwards
     if rng.random() < 0.75:
         # the further history of the LOADED object: first add-only steps (also replayed in the model), then anything
         case["post_a"] = [gen_op(rng.choice([0.1, 0.1, 0.6]), late=True) for _ in range(rng.randint(1, 3))]
         case["post_b"] = [gen_op(rng.random(), late=True) for _ in range(rng.randint(0, 3))]
         case["fmt2"] = {"json": rng.choice(["json", "hgx"]), "hgx": rng.choice(["json", "hgx"])}
     return case
+
+
+# ------------------------------------------------------------------------------------------
+# SIZE as a dimension: objects described by a compact recipe (the replay stores the recipe, not the history)
+
+PW2_QUICK = [255, 256, 257, 4095, 4096, 4097]
+PW2_MORE = [127, 128, 129, 511, 512, 513, 999, 1000, 1001, 1023, 1024, 1025, 8191, 8192, 8193, 9999, 10000, 10001]
+PW2_HUGE = [65535, 65536, 65537]
+DIMS = ["records", "nodes", "edges", "edge_size", "meta_entries", "label_len", "value_len", "extras", "depth"]
+# (Hypergraph.add_edge hashes the whole node tuple once per member: a hyperedge of 65536 nodes takes half a minute to
+#  insert on the unchanged code, read_hif sorts the incidence list once per incidence - sizes bounded accordingly)
+DIM_MAX = {"depth": 257, "meta_entries": 10001, "edge_size": 10001, "label_len": 65537, "value_len": 65537}
+
+
+def sized_labels(rng, n, kind, length=None):
+    """n distinct labels in a random (unsorted, non-contiguous) order"""
+    if length is not None:
+        # strings of exactly `length` characters: all share a long run, they differ in their LAST character(s); one
+        # differs from its neighbour in the FIRST character only (a label cut / compared at a fixed length merges them)
+        w = len(str(n - 1))
+        if length <= w + 1:
+            out = [str(i).zfill(length)[-length:] for i in range(n)]
+        else:
+            out = ["x" + "m" * (length - 1 - w) + str(i).zfill(w) for i in range(n)]
+            out[1] = "y" + out[0][1:]
+        out = list(dict.fromkeys(out))
+        rng.shuffle(out)
+        return out
+    ids = rng.sample(range(4 * n + 300), n)
+    if kind == "int":
+        off = rng.choice([0, 0, 250, 65530, 2 ** 31 - 5, 2 ** 53 - 3])
+        return [off + i for i in ids]
+    return ["v%d" % i for i in ids]
+
+
+def expand(recipe):
+    """recipe -> full case (deterministic: own PRNG).  dim says which size is made exactly `size`:
+    records (1 + nodes + hyperedges), nodes, edges, edge_size (members of one hyperedge), meta_entries (entries of one
+    node's / one hyperedge's / the hypergraph's metadata), label_len (characters of the labels / layer names), value_len
+    (characters / elements of metadata values and keys), extras (times of one node set / layers / isolated nodes only),
+    depth (nesting of a metadata value)"""
+    rng = random.Random(recipe["seed"])
+    T, S, dim, weighted = recipe["T"], recipe["size"], recipe["dim"], recipe["weighted"]
+    wreg = recipe.get("wreg") or "q"
+    kind = recipe.get("labels", "int")
+    N, E = 6, 5
+    if dim == "records":
+        N = rng.randint(max(2, S // 4) if not recipe.get("rich") else 4300, max(3, 3 * S // 4))
+        E = S - 1 - N
+    elif dim == "nodes":
+        N, E = S, rng.randint(3, 40)
+    elif dim == "edges":
+        N, E = rng.randint(20, 200), S
+    elif dim == "edge_size":
+        N, E = S + 6, 6
+    elif dim == "extras":
+        N, E = (S, 0) if T in "HD" else (8, S)
+    if dim == "label_len":
+        labels = sized_labels(rng, 3, "str", S) + sized_labels(rng, 2, "str", S - 1) + sized_labels(rng, 2, "str", S + 1)
+        rng.shuffle(labels)
+    else:
+        labels = sized_labels(rng, N, kind)
+    N = len(labels)
+    xl = ["zz-extra-%d" % i for i in range(3)] if isinstance(labels[0], str) else [max(labels) + 7 + i for i in range(3)]
+    tmpl = ["zz-temp-%d" % i for i in range(4)] if isinstance(labels[0], str) else [max(labels) + 100 + i for i in range(4)]
+    if T == "M":
+        if dim == "extras":
+            layers = ["L%d" % i for i in rng.sample(range(3 * S), S)]
+        elif dim == "label_len":
+            layers = ["l" * (S - 1) + c for c in "ab"] + ["l" * (S + 1), "l" * (S - 1)]
+        else:
+            layers = rng.sample(STR_LAYERS[:4], 3) if rng.random() < 0.5 else rng.sample(INT_LAYERS, 3)
+    else:
+        layers = ["L0", "L1", "L2"]
+    times = rng.sample(range(3 * S + 10), S) if (T == "T" and dim == "extras") else \
+        [0, 1, 2, 3, 5, 8, 13, 255, 256, 257, 65536, 2 ** 31, 2 ** 32 + 1, 2 ** 53 + 1, 2 ** 63]
+
+    def wt():
+        if weighted:
+            return gen_weight(rng, wreg)
+        r = rng.random()
+        return None if r < 0.9 else 1 if r < 0.95 else 1.0
+
+    def small_meta(p_empty=0.6, reserved=True):
+        return gen_meta(rng, p_empty, reserved)
+
+    def mk_key(nodes, j=None):
+        nodes = tuple(nodes)
+        if T == "H":
+            return (nodes,)
+        if T == "D":
+            if len(nodes) < 2:
+                nodes = nodes + tuple(x for x in labels[:3] if x not in nodes)[:1]
+            a = rng.randint(1, len(nodes) - 1) if j is None else j
+            return ((nodes[:a], nodes[a:]),)
+        if T == "T":
+            return (nodes, rng.choice(times))
+        return (nodes, rng.choice(layers))
+
+    seen, ekeys, eops = set(), [], []
+
+    def add_key(k, w=None, md=None, force=False):
+        c = canon_key(T, k)
+        if c in seen and not force:
+            return False
+        if c not in seen:
+            ekeys.append(k)
+        seen.add(c)
+        eops.append(("edge", k, wt() if w is None else w, md))
+        return True
+
+    special = None        # the hyperedge that carries the size
+    nmeta = {}
+    hmeta_op = None
+    if dim == "edge_size":
+        big = rng.sample(labels, S)
+        k = mk_key(big, rng.choice([1, S - 1, max(1, S // 2)]) if T == "D" else None)
+        add_key(k, md=small_meta(0.3))
+        special = k
+        if T in "TM":
+            add_key((k[0], rng.choice([t for t in (times if T == "T" else layers) if t != k[1]])), md=small_meta())
+    if dim == "extras" and T in "TM":
+        base = tuple(rng.sample(labels, rng.randint(1, 3)))
+        for x in (times if T == "T" else layers):
+            add_key((base, x), md=small_meta())
+        special = ekeys[0]
+    rich_key = None
+    if recipe.get("rich") and N > 4200:
+        # a big object that is big in the other dimensions as well: one hyperedge of 4098 members, a node and a
+        # hyperedge with 4097 metadata entries, one metadata string beyond 64 KiB
+        rich_key = mk_key(rng.sample(labels, 4098), 4097 if T == "D" else None)
+        add_key(rich_key, md={"e%d" % i: i for i in range(4097)})
+        nmeta[labels[1]] = {"k%d" % i: i for i in range(4097)}
+        nmeta[labels[2]] = {"bytes": "b" * 65540}
+    tries = 0
+    while len(ekeys) < E and tries < 20 * E + 100:
+        tries += 1
+        if T in "TM" and ekeys and rng.random() < 0.2:
+            k = (rng.choice(ekeys)[0],) + mk_key(labels[:1])[1:]          # the same node set at another time / layer
+        else:
+            k = mk_key(rng.sample(labels, rng.randint(2 if T == "D" else 1, min(4, N))))
+        if add_key(k, md=small_meta()) and ekeys and rng.random() < 0.03:
+            q = rng.choice(ekeys)                                          # re-insertion: weights add up, metadata replaced
+            if rng.random() < 0.5 and T != "D":
+                q = (tuple(reversed(q[0])),) + tuple(q[1:])
+            add_key(q, md=small_meta(), force=True)
+    if special is None and ekeys:
+        special = rng.choice(ekeys)
+    # the metadata dimensions carry the sizes S-1, S, S+1 in ONE object (three nodes, up to three hyperedges, the
+    # hypergraph metadata), so a bound "at most S" / "fewer than S" shows whichever of the three sizes the run picked
+    trio = [S - 1, S, S + 1]
+    ek3 = (ekeys[:3] if special is None else [special] + [k for k in ekeys if k is not special][:2])
+
+    def deep(depth, leaf):
+        for _ in range(depth):
+            leaf = [leaf]
+        return leaf
+
+    def deepd(depth):
+        w = {"z": 1}
+        for _ in range(max(depth - 1, 0)):
+            w = {"n": w}
+        return w
+    if dim == "meta_entries":
+        for j, n_ in enumerate(trio):
+            nmeta[labels[j]] = {"k%d" % i: (i if i % 3 else "v%d" % i) for i in rng.sample(range(2 * n_ + 2), n_)}
+        for j, k in enumerate(ek3):
+            eops.append(("emeta", k, {"e%d" % i: i for i in range(trio[j])}))
+        hm = {"h%d" % i: [i] for i in range(S - 2)}
+        hmeta_op = ("hset", {**hm, "weighted": weighted, "type": TNAME[T]})
+    elif dim == "value_len":
+        for j, n_ in enumerate(trio):
+            nmeta[labels[j]] = {"s": "s" * n_, "l": list(range(n_)), "k" * n_: 1}
+        for j, k in enumerate(ek3):
+            # ... and one record whose text is about 16 * S characters (beyond 64 KiB for S around 4096)
+            eops.append(("emeta", k, {"a": "a" * (trio[j] - 1) + "é", "d": {"x%d" % i: i for i in range(trio[j])},
+                                      "bytes": "b" * (16 * S + j - 1)}))
+        hmeta_op = ("hattr", "long", ["s" * S, {"k" * S: "s" * (S + 1)}])
+    elif dim == "depth":
+        top = [min(x, 257) for x in trio]
+        for j, n_ in enumerate(top):
+            nmeta[labels[j]] = {"deep": deep(n_, 1.5)}
+        for j, k in enumerate(ek3):
+            eops.append(("emeta", k, {"a": deepd(top[j])}))
+        hmeta_op = ("hattr", "deep", [deep(min(S, 257), 1.5), deepd(min(S, 257))])
+    used = set()
+    for k in ekeys:
+        used.update(members_of(canon_key(T, k), T))
+    nops = []
+    for x in labels:
+        if x in nmeta:
+            nops.append(("node", x, nmeta[x]))
+        elif x not in used or rng.random() < 0.3:
+            nops.append(("node", x, small_meta(0.5, reserved=False) if rng.random() < 0.9 else None))
+    ops = nops + eops
+    if dim not in ("meta_entries", "value_len", "depth"):
+        rng.shuffle(ops)         # unsorted insertion order: nodes named by hyperedges before / after their own add_node
+    else:
+        ops = nops + eops        # (the emeta steps follow their hyperedges)
+    # temporary items removed again: gaps in the internal ids
+    for pos in sorted(rng.sample(range(len(ops) + 1), min(2, len(ops) + 1)), reverse=True):
+        a, b = rng.sample(tmpl, 2)
+        ops[pos:pos] = [("edge", mk_key((a, b), 1), wt(), None), ("rmnode", a, False), ("rmnode", b, False)]
+    r = rng.random()
+    if hmeta_op is not None:
+        ops.append(hmeta_op)
+    elif r < 0.3:
+        ops.append(("hset", small_meta(0.0)))
+    elif r < 0.6:
+        ops.append(("hattr", rng.choice(UKEYS[2:8]), copy.deepcopy(rng.choice(VALS[:24]))))
+    case = {"T": T, "weighted": weighted, "wreg": wreg if weighted else None, "labels": labels, "xlabels": xl + tmpl,
+            "layers": list(layers), "ops": ops, "reload": True}
+    if recipe.get("post_fmt"):
+        case["post_fmt"] = recipe["post_fmt"]       # (big objects: the history after load for one of the formats only)
+    if recipe.get("full_model"):
+        case["full_model"] = True
+    if recipe.get("post", True):
+        pa = []
+        if special is not None:
+            pa.append(("edge", special, wt(), small_meta(0.3, reserved=False)))
+        pa.append(("edge", mk_key((xl[0], rng.choice(labels)), 1), wt(), None))
+        pa.append(("node", xl[1], {"a": 1}))
+        pb = []
+        if special is not None:
+            pb.append(rng.choice([("rmedge", special), ("eattr", special, "x y", [1, 2.5]),
+                                  ("rmnode", members_of(canon_key(T, special), T)[0], rng.random() < 0.5)]))
+        pb.append(("rmnode", rng.choice(labels), rng.random() < 0.5))
+        if ekeys:
+            pb.append(("rmedge", rng.choice(ekeys)))
+        case["post_a"], case["post_b"] = pa, pb
+        case["fmt2"] = {"json": rng.choice(["json", "hgx"]), "hgx": rng.choice(["json", "hgx"])}
+    return case
+
+
+def recipe_plan(rng, tier):
+    """the sized objects of one run.  Every run (the first N_MUST entries): each of the four types with more than 10000
+    records (thorough: also one beyond 5000 and one beyond 65536 each), one more object beyond 5000 records, and the
+    record counts 4095 / 4096 / 4097 and 8191 / 8192 / 8193 (quick: one of the three).  The other (dimension, size)
+    pairs: quick - per dimension one size around 256 and, for most dimensions, one around 4096, types rotating;
+    thorough - the whole grid.  Quick runs the history after load on big objects for one format and not on all."""
+    plan = []
+
+    def rec(T, dim, size, **kw):
+        plan.append({"T": T, "dim": dim, "size": size, "weighted": rng.random() < 0.6,
+                     "wreg": rng.choice(["q", "q", "big", "flt"]), "labels": rng.choice(["int", "int", "str"]),
+                     "seed": rng.getrandbits(32), **kw})
+    order = TYPES[:]
+    rng.shuffle(order)
+    quick = tier != "thorough"
+    fm = ["json", "hgx"]
+    rng.shuffle(fm)
+    for T in order:
+        rec(T, "records", rng.randint(10001, 11000 if quick else 20000), rich=True, **({"post": False} if quick else {"post_fmt": rng.choice(fm)}))
+    if quick:
+        rec(order[0], "records", rng.randint(5001, 6000), post_fmt=fm[0])
+        for i, s in enumerate([4095, 4096, 4097, rng.choice([8191, 8192, 8193])]):
+            rec(order[(i + 1) % 4], "records", s, **({"post_fmt": fm[1]} if i == 1 else {"post": False}))
+        assert len(plan) == N_MUST["quick"]
+        j = rng.randrange(4)
+        heavy = set(rng.sample(["nodes", "edges", "edge_size", "extras", "meta_entries"], 2))   # around 256 only this run
+        for dim in DIMS[1:]:
+            for grp in (PW2_QUICK[:3], PW2_QUICK[3:]):
+                s = rng.choice(grp)
+                if s <= DIM_MAX.get(dim, 10 ** 9) and not (s > 4000 and dim in heavy):
+                    rec(TYPES[j % 4], dim, s, **({"post_fmt": fm[j % 2]} if s > 4000 else {}))
+                    if s > 4000 and dim in ("meta_entries", "label_len", "value_len"):
+                        for d in (1, 2, 3):           # small objects: the other three types as well
+                            rec(TYPES[(j + d) % 4], dim, rng.choice(grp), post=False)
+                    j += 1
+        for _ in range(2):
+            rec(rng.choice(TYPES), rng.choice(DIMS[:8]), rng.choice(PW2_MORE[:12]))
+        return plan
+    for T in order:
+        rec(T, "records", rng.randint(5001, 9000))
+    for i, s in enumerate([4095, 4096, 4097, 8191, 8192, 8193]):
+        rec(order[(i + 1) % 4], "records", s, **({"full_model": True} if s < 5000 else {}))    # the model sees the whole object
+    for i, T in enumerate(order):
+        rec(T, "records", rng.randint(65537, 70000), **({"post_fmt": fm[0]} if i == 0 else {"post": False}))
+    assert len(plan) == N_MUST["thorough"]
+    for dim in DIMS:
+        for s in PW2_QUICK:
+            if s <= DIM_MAX.get(dim, 10 ** 9) and dim != "records":
+                for T in TYPES:
+                    rec(T, dim, s, **({"post_fmt": rng.choice(fm)} if s > 4000 else {}))
+        for s in PW2_MORE:
+            if s <= DIM_MAX.get(dim, 10 ** 9) and not (dim == "records" and s in (8191, 8192, 8193)):
+                rec(rng.choice(TYPES), dim, s, **({"post_fmt": rng.choice(fm)} if s > 4000 else {}))
+        for s in (PW2_HUGE if dim in ("label_len", "value_len") else [rng.choice(PW2_HUGE)]):
+            if s <= DIM_MAX.get(dim, 10 ** 9) and dim != "records":
+                rec(rng.choice(TYPES), dim, s, post=False)
+    return plan
+
+
+N_MUST = {"quick": 9, "thorough": 18}
 
 
 def canon_key(T, k):
@@ -299,12 +658,163 @@ def tup(x):
     return tuple(tup(y) for y in x) if isinstance(x, (list, tuple)) else x
 
 
-def build(case):
+# ------------------------------------------------------------------------------------------
+# how an argument is PRESENTED to the implementation: a fresh equal object for every label / weight in every call,
+# a container type per node set.  Everything derives from crc32 of the step, so replays repeat it.
+
+def crc(*parts):
+    return zlib.crc32("|".join(map(str, parts)).encode())
+
+
+def fresh(v):
+    """an equal object that is not the same object: ints beyond the small-int cache, strings built at run time, floats"""
+    if v is None or isinstance(v, bool):
+        return v
+    if isinstance(v, int):
+        return int(str(v))
+    if isinstance(v, float):
+        return float.fromhex(v.hex())
+    if isinstance(v, str):
+        return "".join(list(v)) if len(v) >= 2 else v
+    if isinstance(v, tuple):
+        return tuple(fresh(x) for x in v)
+    if isinstance(v, list):
+        return [fresh(x) for x in v]
+    return v
+
+
+CONTAINERS = ["tuple", "list", "set", "frozenset", "dict", "keys", "gen", "iter"]
+
+
+def pick_container(sel, hashable=False):
+    """half of the node sets travel as tuples; the others as list / set / frozenset / dict / dict view / generator /
+    iterator (all accepted by the four add_edge); inside a weighted batch the code hashes the hyperedges"""
+    if hashable:
+        return "frozenset" if sel % 4 == 3 else "tuple"
+    r = sel % 14
+    return "tuple" if r < 7 else CONTAINERS[r - 6]
+
+
+def contain(xs, kind):
+    xs = [fresh(x) for x in xs]
+    if kind == "tuple":
+        return tuple(xs)
+    if kind == "list":
+        return xs
+    if kind == "set":
+        return set(xs)
+    if kind == "frozenset":
+        return frozenset(xs)
+    if kind == "dict":
+        return dict.fromkeys(xs)
+    if kind == "keys":
+        return dict.fromkeys(xs).keys()
+    if kind == "gen":
+        return (x for x in xs)
+    return iter(xs)
+
+
+def scribble(c):
+    """aliasing IN: after the call the caller's mutable collection is overwritten"""
+    try:
+        if isinstance(c, list):
+            c[:] = ["scribbled"]
+        elif isinstance(c, set):
+            c.clear()
+            c.add("scribbled")
+        elif isinstance(c, dict):
+            c.clear()
+            c["scribbled"] = 1
+        elif isinstance(c, tuple):
+            for x in c:
+                scribble(x)
+    except Exception:  # noqa: BLE001
+        pass
+
+
+def edge_arg(T, k, sel, hashable=False):
+    """the first argument of add_edge for the generated key k (its node sets in some container)"""
+    if T == "D":
+        a = contain(k[0][0], pick_container(sel, hashable))
+        b = contain(k[0][1], pick_container(sel // 16, hashable))
+        return (a, b) if hashable or (sel // 256) % 3 else [a, b]
+    return contain(k[0], pick_container(sel, hashable))
+
+
+def quiet():
+    import contextlib
+    import io
+    import warnings
+    st = contextlib.ExitStack()
+    w = warnings.catch_warnings()
+    st.enter_context(w)
+    warnings.simplefilter("ignore")
+    st.enter_context(contextlib.redirect_stdout(io.StringIO()))
+    return st
+
+
+def cls_of(T):
     import hypergraphx as hx
+    return {"H": hx.Hypergraph, "D": hx.DirectedHypergraph, "T": hx.TemporalHypergraph, "M": hx.MultiplexHypergraph}[T]
+
+
+def bulk_args(T, i, ks, ws, mds):
+    """arguments of add_edges / of the constructor for a batch: (edge_list, times or layers or None, weights, metadata)"""
+    hashable = ws is not None
+    edges = [edge_arg(T, k, crc("bulk", i, j, repr(k)[:120]), hashable) for j, k in enumerate(ks)]
+    extra = [fresh(k[1]) for k in ks] if T in "TM" else None
+    sel = crc("bulkc", i, len(ks))
+    if ws is not None:
+        ws = [fresh(w) for w in ws]
+        ws = tuple(ws) if sel % 3 == 0 else ws
+    if mds is not None:
+        mds = [copy.deepcopy(m) for m in mds]
+        mds = tuple(mds) if (sel // 3) % 3 == 0 else mds
+    return edges, extra, ws, mds
+
+
+def build(case):
     T = case["T"]
-    cls = {"H": hx.Hypergraph, "D": hx.DirectedHypergraph, "T": hx.TemporalHypergraph, "M": hx.MultiplexHypergraph}[T]
-    h = cls(weighted=case["weighted"])
+    kw = {"weighted": case["weighted"]}
+    ct = case.get("ctor")
+    held = []
+    if ct:
+        # part of the content handed to the constructor (hypergraph / node metadata, a batch of hyperedges)
+        if ct.get("hmeta") is not None:
+            kw["hypergraph_metadata"] = copy.deepcopy(ct["hmeta"])
+        if ct.get("nmeta"):
+            kw["node_metadata"] = {fresh(n): copy.deepcopy(m) for n, m in ct["nmeta"]}
+        if ct.get("bulk"):
+            ks, ws, mds = ct["bulk"]
+            edges, extra, ws, mds = bulk_args(T, "ctor", [tup(k) for k in ks], ws, mds)
+            kw["edge_list"] = edges
+            if T == "T":
+                kw["time_list"] = extra
+            elif T == "M":
+                kw["edge_layer"] = extra
+            kw["weights"] = ws
+            kw["edge_metadata"] = mds
+            held = [edges, extra, ws]
+    with quiet():
+        h = cls_of(T)(**kw)
+    for c in held:
+        scribble(c)
     return h, len(apply_ops(h, T, case["ops"]))
+
+
+def ctor_ops(case):
+    """the constructor arguments as the equivalent public calls on an empty object (what the model replays)"""
+    ct = case.get("ctor")
+    if not ct:
+        return []
+    out = []
+    if ct.get("hmeta") is not None:
+        out.append(("hset", {**ct["hmeta"], "weighted": case["weighted"], "type": TNAME[case["T"]]}))
+    for n, m in ct.get("nmeta") or []:
+        out.append(("node", n, m))
+    if ct.get("bulk"):
+        out.append(("bulk",) + tuple(ct["bulk"]))
+    return out
 
 
 def apply_ops(h, T, ops):
@@ -313,18 +823,29 @@ def apply_ops(h, T, ops):
     for i, op in enumerate(ops):
         op = list(op)
         kind = op[0]
+        sel = crc(i, kind, repr(op[1])[:160] if len(op) > 1 else "")
+        held = None
         try:
             if kind == "node":
-                h.add_node(op[1], copy.deepcopy(op[2])) if op[2] is not None else h.add_node(op[1])
+                h.add_node(fresh(op[1]), copy.deepcopy(op[2])) if op[2] is not None else h.add_node(fresh(op[1]))
             elif kind == "edge":
                 k = tup(op[1])
                 md = copy.deepcopy(op[3])
+                held = e = edge_arg(T, k, sel)
                 if T in "HD":
-                    h.add_edge(k[0], op[2], metadata=md)
+                    h.add_edge(e, fresh(op[2]), metadata=md)
                 else:
-                    h.add_edge(k[0], k[1], weight=op[2], metadata=md)
+                    h.add_edge(e, fresh(k[1]), weight=fresh(op[2]), metadata=md)
+            elif kind == "bulk":
+                edges, extra, ws, mds = bulk_args(T, i, [tup(k) for k in op[1]], op[2], op[3])
+                held = [edges, extra, ws]
+                with quiet():
+                    if T in "HD":
+                        h.add_edges(edges, weights=ws, metadata=mds)
+                    else:
+                        h.add_edges(edges, extra, weights=ws, metadata=mds)
             elif kind == "rmedge":
-                k = tup(op[1])
+                k = fresh(tup(op[1]))
                 if T in "HD":
                     h.remove_edge(k[0])
                 elif T == "T":
@@ -332,11 +853,13 @@ def apply_ops(h, T, ops):
                 else:
                     h.remove_edge((tuple(sorted(k[0])), k[1]))
             elif kind == "rmnode":
-                h.remove_node(op[1], keep_edges=op[2])
+                h.remove_node(fresh(op[1]), keep_edges=op[2])
             elif kind == "nmeta":
-                h.set_node_metadata(op[1], copy.deepcopy(op[2]))
+                h.set_node_metadata(fresh(op[1]), copy.deepcopy(op[2]))
+            elif kind == "nattr":
+                h.set_attr_to_node_metadata(fresh(op[1]), fresh(op[2]), copy.deepcopy(op[3]))
             elif kind == "emeta":
-                k = tup(op[1])
+                k = fresh(tup(op[1]))
                 if T in "HD":
                     h.set_edge_metadata(k[0], copy.deepcopy(op[2]))
                 elif T == "T":
@@ -344,45 +867,52 @@ def apply_ops(h, T, ops):
                 else:
                     h.set_attr_to_edge_metadata(k[0], k[1], "a", copy.deepcopy(op[2]))
             elif kind == "eattr":
-                k = tup(op[1])
+                k = fresh(tup(op[1]))
                 if T in "HD":
-                    h.set_attr_to_edge_metadata(k[0], op[2], copy.deepcopy(op[3]))
+                    h.set_attr_to_edge_metadata(k[0], fresh(op[2]), copy.deepcopy(op[3]))
                 else:
-                    h.set_attr_to_edge_metadata(k[0], k[1], op[2], copy.deepcopy(op[3]))
+                    h.set_attr_to_edge_metadata(k[0], k[1], fresh(op[2]), copy.deepcopy(op[3]))
             elif kind == "setw":
-                k = tup(op[1])
+                k = fresh(tup(op[1]))
                 if T in "HD":
-                    h.set_weight(k[0], op[2])
+                    h.set_weight(k[0], fresh(op[2]))
                 else:
-                    h.set_weight(k[0], k[1], op[2])
+                    h.set_weight(k[0], k[1], fresh(op[2]))
             elif kind == "hset":
                 h.set_hypergraph_metadata(copy.deepcopy(op[1]))
             elif kind == "hattr":
-                h.set_attr_to_hypergraph_metadata(op[1], copy.deepcopy(op[2]))
+                h.set_attr_to_hypergraph_metadata(fresh(op[1]), copy.deepcopy(op[2]))
             elif kind == "bulkw":
                 ks = [tup(k) for k in op[1]]
-                import warnings
-                with warnings.catch_warnings():
-                    warnings.simplefilter("ignore")
-                    import io
-                    import contextlib
-                    with contextlib.redirect_stdout(io.StringIO()):
-                        if T in "HD":
-                            h.add_edges([k[0] for k in ks], weights=list(op[2]))
-                        else:
-                            h.add_edges([k[0] for k in ks], [k[1] for k in ks], weights=list(op[2]))
+                with quiet():
+                    if T in "HD":
+                        h.add_edges([fresh(k[0]) for k in ks], weights=list(op[2]))
+                    else:
+                        h.add_edges([fresh(k[0]) for k in ks], [fresh(k[1]) for k in ks], weights=list(op[2]))
         except Exception as e:  # noqa: BLE001 - a rejected step is an observation
             failed.append((i, type(e).__name__))
+        if held is not None:
+            scribble(held)
     return failed
 
 
 # ------------------------------------------------------------------------------------------
 # digest through the public API
 
+def snapshot(x):
+    """an independent copy of JSON-like data (pickle round trip: C speed, keeps int / float / bool / tuple apart);
+    anything pickle refuses is deep-copied"""
+    try:
+        return pickle.loads(pickle.dumps(x, protocol=pickle.HIGHEST_PROTOCOL))
+    except Exception:  # noqa: BLE001
+        return copy.deepcopy(x)
+
+
 def digest(h, T):
-    """{'type','weighted','hmeta','nodes': [(label, meta)], 'edges': [(key, weight, meta)]} - deep copies"""
-    nodes = [(n, copy.deepcopy(m)) for n, m in h.get_nodes(metadata=True).items()]
-    if sorted(map(repr, h.get_nodes())) != sorted(repr(n) for n, _ in nodes):
+    """{'type','weighted','hmeta','nodes': [(label, meta)], 'edges': [(key, weight, meta)]} - independent copies"""
+    nodes = list(h.get_nodes(metadata=True).items())
+    plain = list(h.get_nodes())
+    if plain != [n for n, _ in nodes] and sorted(map(repr, plain)) != sorted(repr(n) for n, _ in nodes):
         raise ValueError("get_nodes() and get_nodes(metadata=True) list different nodes")
     edges = []
     for e in h.get_edges():
@@ -398,9 +928,9 @@ def digest(h, T):
         else:
             k = (tuple(e[0]), e[1])
             w, m = h.get_weight(e[0], e[1]), h.get_edge_metadata(e[0], e[1])
-        edges.append((k, w, copy.deepcopy(m)))
-    d = {"type": type(h).__name__, "weighted": h.is_weighted(), "hmeta": copy.deepcopy(h.get_hypergraph_metadata()),
-         "nodes": nodes, "edges": edges}
+        edges.append((k, w, m))
+    nodes, edges, hm = snapshot((nodes, edges, h.get_hypergraph_metadata()))
+    d = {"type": type(h).__name__, "weighted": h.is_weighted(), "hmeta": hm, "nodes": nodes, "edges": edges}
     if T == "M":
         d["layers"] = sorted(map(repr, h.get_existing_layers()))     # the layer registry (compared for .hgx only)
     return d
@@ -413,20 +943,31 @@ def members_of(k, T):
 def incidence(h, T, d):
     """{node: sorted incident hyperedges (as digest keys)} through get_incident_edges, node by node"""
     out = {}
+    memo = {}
+
+    def key_text(e):
+        try:
+            t = memo.get(e)
+        except TypeError:           # unhashable answer
+            t = None
+        if t is None:
+            if T == "H":
+                k = tuple(e)
+            elif T == "D":
+                k = (tuple(e[0]), tuple(e[1]))
+            elif T == "T":
+                k = (tuple(e[1]), e[0])
+            else:
+                k = (tuple(e[0]), e[1])
+            t = repr(k)
+            try:
+                memo[e] = t
+            except TypeError:
+                pass
+        return t
     for n, _ in d["nodes"]:
         try:
-            es = h.get_incident_edges(n)
-            ks = []
-            for e in es:
-                if T == "H":
-                    ks.append(tuple(e))
-                elif T == "D":
-                    ks.append((tuple(e[0]), tuple(e[1])))
-                elif T == "T":
-                    ks.append((tuple(e[1]), e[0]))
-                else:
-                    ks.append((tuple(e[0]), e[1]))
-            out[repr(n)] = sorted(map(repr, ks))
+            out[repr(n)] = sorted(key_text(e) for e in h.get_incident_edges(n))
         except Exception as e:  # noqa: BLE001
             out[repr(n)] = "exc " + type(e).__name__ + ": " + str(e)[:80]
     return out
@@ -436,9 +977,11 @@ def incidence_expected(d, T):
     """the same listing by definition: the hyperedges of get_edges() that contain the node"""
     out = {repr(n): [] for n, _ in d["nodes"]}
     for k, _, _ in d["edges"]:
+        rk = repr(k)
         for x in members_of(k, T):
-            if repr(x) in out:
-                out[repr(x)].append(repr(k))
+            rx = repr(x)
+            if rx in out:
+                out[rx].append(rk)
     return {n: sorted(v) for n, v in out.items()}
 
 
@@ -448,6 +991,11 @@ def strip_reserved(m):
 
 def jeq(a, b):
     """equality that keeps apart what JSON keeps apart (True / 1 / 1.0, -0.0 / 0.0, key "1" / key 1)"""
+    try:
+        if repr(a) == repr(b):      # equal text => equal in the sense of norm (repr keeps 1 / 1.0 / True / -0.0 / '1' apart)
+            return True
+    except Exception:  # noqa: BLE001
+        pass
     return norm(a) == norm(b)
 
 
@@ -466,6 +1014,16 @@ def compare_digests(d0, d1, what):
     """the property's words: same type, nodes (with metadata), hyperedges, weightedness, weights, metadata
     (hyperedge metadata modulo the reserved keys).  Returns a list of differences."""
     out = []
+    try:
+        # fast path (big objects): same listing order and textually equal items => nothing to report
+        def nw(w):      # (an unweighted object: only the value 1 is demanded of a weight)
+            return w if d0["weighted"] is True or not (is_num(w) and w == 1) else 1
+        if d0["type"] == d1["type"] and d0["weighted"] is d1["weighted"] and repr(d0["hmeta"]) == repr(d1["hmeta"]) \
+                and repr(d0["nodes"]) == repr(d1["nodes"]) \
+                and repr([(k, nw(w), strip_reserved(m)) for k, w, m in d0["edges"]]) == repr([(k, nw(w), strip_reserved(m)) for k, w, m in d1["edges"]]):
+            return out
+    except Exception:  # noqa: BLE001
+        pass
     if d0["type"] != d1["type"]:
         out.append(f"{what}: type {d1['type']} != {d0['type']}")
     if d0["weighted"] != d1["weighted"]:
@@ -476,8 +1034,15 @@ def compare_digests(d0, d1, what):
     n1 = {repr(n): m for n, m in d1["nodes"]}
     if len(n1) != len(d1["nodes"]):
         out.append(f"{what}: a node is listed twice")
+    def few(xs):
+        return "[" + ", ".join(x if len(x) <= 130 else x[:90] + "...(" + str(len(x)) + " chars)" for x in sorted(xs)[:3]) + \
+            (", ..." if len(xs) > 3 else "") + "]"
     if sorted(n0) != sorted(n1):
-        out.append(f"{what}: nodes {sorted(n1)} != saved {sorted(n0)}"[:600])
+        if len(n0) + len(n1) <= 24:
+            out.append(f"{what}: nodes {sorted(n1)} != saved {sorted(n0)}"[:600])
+        else:
+            out.append(f"{what}: {len(n1)} nodes != saved {len(n0)}; saved but not there: {few(set(n0) - set(n1))}; "
+                       f"there but not saved: {few(set(n1) - set(n0))}"[:900])
     else:
         for n in n0:
             if not jeq(n0[n], n1[n]):
@@ -488,7 +1053,11 @@ def compare_digests(d0, d1, what):
     if len(e1) != len(d1["edges"]):
         out.append(f"{what}: a hyperedge is listed twice")
     if sorted(e0) != sorted(e1):
-        out.append(f"{what}: hyperedges {sorted(e1)} != saved {sorted(e0)}"[:600])
+        if len(e0) + len(e1) <= 16 and all(len(x) < 100 for x in list(e0) + list(e1)):
+            out.append(f"{what}: hyperedges {sorted(e1)} != saved {sorted(e0)}"[:600])
+        else:
+            out.append(f"{what}: {len(e1)} hyperedges != saved {len(e0)}; saved but not there: {few(set(e0) - set(e1))}; "
+                       f"there but not saved: {few(set(e1) - set(e0))}"[:900])
     else:
         for k in e0:
             if not same_weight(e0[k][0], e1[k][0], d0["weighted"] is True):
@@ -497,7 +1066,13 @@ def compare_digests(d0, d1, what):
                 break
         for k in e0:
             if not jeq(strip_reserved(e0[k][1]), strip_reserved(e1[k][1])):
-                out.append(f"{what}: metadata of {k[:80]} (reserved keys erased): {e1[k][1]!r} != saved {e0[k][1]!r}"[:600])
+                a, b = strip_reserved(e1[k][1]), strip_reserved(e0[k][1])
+                if isinstance(a, dict) and isinstance(b, dict) and len(a) + len(b) > 12:
+                    dk = [x for x in list(b) + list(a) if x not in a or x not in b or not jeq(a[x], b[x])]
+                    out.append(f"{what}: metadata of {k[:80]} (reserved keys erased): {len(a)} entries != saved {len(b)}; "
+                               f"first differing keys {dk[:3]!r}"[:600])
+                else:
+                    out.append(f"{what}: metadata of {k[:80]} (reserved keys erased): {e1[k][1]!r} != saved {e0[k][1]!r}"[:600])
                 break
     return out
 
@@ -520,16 +1095,25 @@ class Enc:
     def __init__(self, labels, layers):
         self.rank = {repr(x): i for i, x in enumerate(sorted(set(labels), key=lambda x: (str(type(x)), x)))}
         self.lrank = {repr(x): i for i, x in enumerate(layers)}
+        self.xk, self.xv = {}, {}      # keys / values outside the pools get codes of their own (injective per case)
 
     def node(self, x):
-        return self.rank.get(repr(x), 900 + (hash(repr(x)) % 97))
+        return self.rank.get(repr(x), 10 ** 7 + crc(repr(x)) % 9973)
 
     def layer(self, x):
-        return self.lrank.get(repr(x), 900)
+        return self.lrank.get(repr(x), 10 ** 6)
 
     def val(self, v):
-        i = VKEY.get(norm(v))
-        return "p" + str(999 if i is None else i)
+        nv = norm(v)
+        i = VKEY.get(nv)
+        if i is None:
+            i = self.xv.setdefault(nv, 1000 + len(self.xv))
+        return "p" + str(i)
+
+    def key(self, k):
+        if isinstance(k, str) and k in UKEYS:
+            return "u" + str(UKEYS.index(k))
+        return "u" + str(self.xk.setdefault(repr(k), 1000 + len(self.xk)))
 
     def meta(self, m, T=None, weighted=False, typed=False):
         """typed=True: the reserved keys carry what save wrote (weight in quanta / time / layer rank)"""
@@ -537,7 +1121,7 @@ class Enc:
             return "u0=p998"
         items = []
         for k, v in m.items():
-            if k in RKEYS:
+            if isinstance(k, str) and k in RKEYS:
                 kk = RKEYS[k]
                 if typed and k == "weight" and weighted:
                     vv = "q" + wcode(v) if wcode(v) != "bad" else "p997"
@@ -548,7 +1132,7 @@ class Enc:
                 else:
                     vv = self.val(v)
             else:
-                kk = "u" + str(UKEYS.index(k)) if k in UKEYS else "u99"
+                kk = self.key(k)
                 vv = self.val(v)
             items.append(kk + "=" + vv)
         return ",".join(items) if items else "-"
@@ -689,130 +1273,323 @@ def is_nontrivial(d, T):
     return iso and len(d["edges"]) >= 2 and bool(md)
 
 
-def save_load(ctx, drv, case, enc, h, T, fmt, tmp, stage):
-    """one save -> load of the live object h with every oracle of the property; returns (loaded object or None, whether
-    the driver now holds the model's loaded content).
+# record positions (0 = header) around which the sampled projection of a big object always looks
+BOUNDS = (256, 1000, 1024, 4096, 8192, 10000, 16384, 65536)
+
+
+def select(d, T, must, seed):
+    """sample of a big digest: the nodes / hyperedges whose records sit around the positions BOUNDS of the file, the
+    first and last two, a dozen random ones, everything the later history names (`must`), closed under membership.
+    Returns (reprs of the selected nodes, reprs of the selected keys)."""
+    rng = random.Random(seed)
+    N, E = len(d["nodes"]), len(d["edges"])
+    ni, ei = set(), set()
+    for p in BOUNDS:
+        for q in range(p - 2, p + 2):
+            if 1 <= q <= N:
+                ni.add(q - 1)
+            elif N < q <= N + E:
+                ei.add(q - 1 - N)
+    ni |= {i for i in (0, 1, N - 2, N - 1) if 0 <= i < N} | set(rng.sample(range(N), min(N, 10)))
+    ei |= {j for j in (0, 1, E - 2, E - 1) if 0 <= j < E} | set(rng.sample(range(E), min(E, 12)))
+    if N + E > 6000:       # (a hyperedge of thousands of members would make the sample the object: the edge_size objects cover it)
+        ei = {j for j in ei if len(members_of(d["edges"][j][0], T)) <= 64}
+    selN = {repr(d["nodes"][i][0]) for i in ni} | set(must[0])
+    selE = {repr(d["edges"][j][0]) for j in ei} | set(must[1])
+    for k, _, _ in d["edges"]:
+        if repr(k) in selE:
+            selN.update(repr(x) for x in members_of(k, T))
+    return selN, selE
+
+
+def project(d, sel, base):
+    """the sub-content on the selection (listing order kept); items that are not in `base` (= were added after the
+    selection was made) are kept as well"""
+    selN, selE = sel
+    bN, bE = base if base is not None else (None, None)
+    out = dict(d)
+    out["nodes"] = [(n, m) for n, m in d["nodes"] if repr(n) in selN or (bN is not None and repr(n) not in bN)]
+    out["edges"] = [(k, w, m) for k, w, m in d["edges"] if repr(k) in selE or (bE is not None and repr(k) not in bE)]
+    return out
+
+
+def must_of(case, T):
+    """what the history after load names: (node reprs, key reprs) - the sampled projection has to contain it, so that
+    the model's add_node / add_edge on the projection meet the same 'already there' cases as the real object"""
+    nodes, keys = set(), set()
+    for op in list(case.get("post_a", [])) + list(case.get("post_b", [])):
+        if op[0] in ("node", "rmnode", "nmeta", "nattr"):
+            nodes.add(repr(op[1]))
+        elif op[0] in ("edge", "rmedge", "emeta", "eattr", "setw"):
+            c = canon_key(T, tup(op[1]))
+            keys.add(repr(c))
+            nodes.update(repr(x) for x in members_of(c, T))
+        elif op[0] in ("bulk", "bulkw"):
+            for k in op[1]:
+                c = canon_key(T, tup(k))
+                keys.add(repr(c))
+                nodes.update(repr(x) for x in members_of(c, T))
+    return nodes, keys
+
+
+def expected_records(d, T):
+    """the record list save_hypergraph(.json) is modelled to write for the digest d (plain Python twin of the model's
+    `save`, used in full on big objects where the model only sees a sample)"""
+    recs = [{"hypergraph_type": d["type"], "hypergraph_metadata": d["hmeta"], "weighted": d["weighted"]}]
+    for n, m in d["nodes"]:
+        recs.append({"type": "node", "idx": n, "metadata": m})
+    wtd = d["weighted"] is True
+    for k, w, m in d["edges"]:
+        md = dict(m)
+        if T == "M":
+            md["layer"] = k[1]
+        if wtd:
+            md["weight"] = w
+        if T == "T":
+            md["time"] = k[1]
+        inter = [list(k[0]), list(k[1])] if T == "D" else list(k[0]) if T in "TM" else list(k)
+        recs.append({"type": "edge", "interaction": inter, "metadata": md})
+    return recs
+
+
+def scan_pieces(text):
+    """top-level pieces of a text file (the trusted tokeniser of the framing check): o `[`  s `,`  c `]`  i one JSON
+    value (json's own scanner)  x anything else; white space skipped.  Never raises."""
+    dec = json.JSONDecoder()
+    out, i, n = [], 0, len(text)
+    first = True
+    while i < n:
+        ch = text[i]
+        if ch in " \t\r\n":
+            i += 1
+        elif first and ch == "[":
+            out.append("o")
+            i += 1
+            first = False
+        elif ch == ",":
+            out.append("s")
+            i += 1
+        elif ch == "]":
+            out.append("c")
+            i += 1
+        else:
+            first = False
+            try:
+                _, i = dec.raw_decode(text, i)
+                out.append("i")
+            except (ValueError, RecursionError):
+                out.append("x")
+                break
+    return "".join(out)
+
+
+class Loaded:
+    """result of one save -> load: g the loaded object (None: stop), mok whether the driver now holds the model's
+    loaded content, d1 the digest of g, path the file, sel / base the sampled projection in force (big objects)"""
+    def __init__(self, path):
+        self.g, self.mok, self.d1, self.path, self.sel, self.base = None, False, None, path, None, None
+
+    def view(self, d):
+        return d if self.sel is None else project(d, self.sel, self.base)
+
+
+def save_load(ctx, drv, case, enc, h, T, fmt, tmp, stage, rep=None, must=None):
+    """one save -> load of the live object h with every oracle of the property; returns a Loaded.
     With a driver: the model's save / load / populate∘expose on the digest of h against the file and the result;
-    afterwards the driver's current content is the model's loaded content."""
+    afterwards the driver's current content is the model's loaded content.  Objects beyond `limit` records: the Python
+    oracles run in full, the file is compared record by record with expected_records, its framing goes to the model in
+    full (`frame`), and the model's save / load run on a sampled projection (select / project)."""
     from hypergraphx.readwrite import load_hypergraph, save_hypergraph
-    vc = {**case, "format": fmt, "stage": stage}
+    vc = {**(rep if rep is not None else case), "format": fmt, "stage": stage}
     path = os.path.join(tmp, f"c{1 if stage == 'first' else 2}.{fmt}")
+    out = Loaded(path)
     # a file of an earlier case usually exists at this path: saving overwrites it
     r = guarded(digest, h, T)
     if r[0] != "ok":
         ctx.violation(vc, f"{stage}: public queries fail on the object: {r[1]}")
-        return None, False
+        return out
     d0 = r[1]                     # the state just before this save
     if not wf_digest(d0, T):
         ctx.count("skipped_not_wellformed")
-        return None, False
+        return out
     inc0 = incidence(h, T, d0)
+    size = 1 + len(d0["nodes"]) + len(d0["edges"])
+    limit = ctx.scale(1500, 2500) if not case.get("full_model") else 10 ** 9
+    use_model = drv is not None
+    dm0 = d0
+    if size > limit:
+        ctx.count("big_objects_saved")
+        if use_model:
+            out.sel = select(d0, T, must or (set(), set()), crc(size, fmt, stage))
+            out.base = ({repr(n) for n, _ in d0["nodes"]}, {repr(k) for k, _, _ in d0["edges"]})
+            dm0 = project(d0, out.sel, None)
+            if len(dm0["nodes"]) + len(dm0["edges"]) > limit:
+                use_model = False           # (one hyperedge with thousands of members: the sample is the object)
+                ctx.count("model_skipped_sample_too_big")
+            else:
+                ctx.count("model_on_sampled_projection")
     model_records = None
-    if drv is not None:
-        lines = content_cmds(enc, d0, T) + ["wf", "digest", "save"]
+    if use_model:
+        lines = content_cmds(enc, dm0, T) + ["wf", "digest", "save"]
         ans = drv.batch(lines)
         n = len(lines)
         if ans[n - 3] != "1":
             ctx.disagree(vc, f"{stage}: the model's well-formedness predicate (hypothesis of the round-trip theorems) is "
                              f"false on the digest of a real object: {ans[n-3]}")
-        if parse_driver_digest(ans[n - 2]) != digest_lines(enc, d0, T):
-            ctx.disagree(vc, f"{stage}: driver echo of the content differs: {ans[n-2][:300]!r} vs {digest_lines(enc, d0, T)!r}"[:900])
+        if parse_driver_digest(ans[n - 2]) != digest_lines(enc, dm0, T):
+            ctx.disagree(vc, f"{stage}: driver echo of the content differs: {ans[n-2][:300]!r} vs {digest_lines(enc, dm0, T)!r}"[:900])
         model_records = canon_records(ans[n - 1])
-    r = guarded(save_hypergraph, h, path, binary=(fmt == "hgx"))
+    r = guarded(save_hypergraph, h, path, binary=(fmt == "hgx"), secs=60)
     if r[0] != "ok":
         ctx.violation(vc, f"{stage}: save_hypergraph(.{fmt}) raised {r[1]}")
-        return None, False
+        return out
     r = guarded(digest, h, T)
     if r[0] != "ok":
         ctx.violation(vc, f"{stage}: public queries fail on the object after saving: {r[1]}")
-        return None, False
+        return out
     d_after = r[1]
     if not jeq(d0, d_after):
         diffs = [f"{k}: {d_after[k]!r} != before {d0[k]!r}" for k in d0 if not jeq(d0[k], d_after.get(k))]
         ctx.violation(vc, f"{stage}: save_hypergraph(.{fmt}) modified the saved object: " + "; ".join(diffs)[:400])
         # continue with the round trip against the state BEFORE saving
-    elif incidence(h, T, d_after) != inc0:
+    elif size <= limit and incidence(h, T, d_after) != inc0:
         ctx.violation(vc, f"{stage}: save_hypergraph(.{fmt}) changed the incident-edge listings of the saved object")
-    r = guarded(load_hypergraph, path)
+    r = guarded(load_hypergraph, path, secs=60)
     if r[0] != "ok":
-        ctx.violation(vc, f"{stage}: load_hypergraph(.{fmt}) raised {r[1]}")
-        return None, False
+        what = f"{stage}: load_hypergraph(.{fmt}) raised {r[1]}"
+        if fmt == "json":
+            what += file_shape(path, size)
+        ctx.violation(vc, what[:900])
+        return out
     g = r[1]
     if g is None:
         ctx.violation(vc, f"{stage}: load_hypergraph(.{fmt}) returned None")
-        return None, False
+        return out
     r = guarded(digest, g, T)
     if r[0] != "ok":
         ctx.violation(vc, f"{stage}: public queries fail on the loaded object / wrong type {type(g).__name__}: {r[1]}")
-        return None, False
+        return out
     d1 = r[1]
     diffs = compare_digests(d0, d1, f"{stage}: .{fmt} round trip")
     for what in diffs[:2]:
         ctx.violation(vc, what)
     if diffs:
-        return None, False
+        return out
     if fmt == "hgx" and not jeq(d0, d1):
         # binary: a field-by-field copy - also the reserved keys, the listing order and the layer registry are identical
         ctx.violation(vc, f"{stage}: .hgx round trip: digest (with listing order / layer registry) differs")
-        return None, False
+        return out
     if inc0 == incidence_expected(d0, T):
         inc1 = incidence(g, T, d1)
         if inc1 != inc0:
             bad = [n for n in inc0 if inc1.get(n) != inc0[n]][:1]
             ctx.violation(vc, f"{stage}: .{fmt} round trip: get_incident_edges({bad[0][:60]}) of the loaded object = "
                               f"{inc1.get(bad[0])!r}, saved object {inc0[bad[0]]!r}"[:700])
-            return None, False
+            return out
     else:
         ctx.count("incidence_of_original_inconsistent")
-    if drv is not None and model_records is not None:
+    out.g, out.d1 = g, d1
+    if fmt == "json":
+        # the file itself: record stream and framing (correspondence with the model; the property does not fix the bytes)
+        try:
+            with open(path) as f:
+                text = f.read()
+            data = json.loads(text)
+        except Exception as e:  # noqa: BLE001
+            ctx.violation(vc, f"{stage}: the saved file is not JSON although load_hypergraph read it: {e}")
+            return out
+        if size > limit or drv is None:
+            want = expected_records(d0, T)
+            if not isinstance(data, list) or len(data) != len(want):
+                ctx.disagree(vc, f"{stage}: the file holds {len(data) if isinstance(data, list) else type(data).__name__} records, "
+                                 f"the model writes {len(want)} (1 header + {len(d0['nodes'])} nodes + {len(d0['edges'])} hyperedges)")
+                return out
+            for i, (a, b) in enumerate(zip(data, want) if repr(data) != repr(want) else []):
+                if not jeq(a, b):
+                    ctx.disagree(vc, f"{stage}: record {i} of the file is {a!r}, the model's save writes {b!r}"[:900])
+                    return out
+            ctx.count("files_compared_in_full_in_python")
+        if drv is not None:
+            letters = scan_pieces(text)
+            ans = drv.batch(["frame " + (letters or "x")])[0]
+            if ans != f"{size};1":
+                ctx.disagree(vc, f"{stage}: framing of the file: model readText / writeText answer {ans} on the piece sequence "
+                                 f"{letters[:40]}..{letters[-10:]} ({len(letters)} pieces), expected {size};1 "
+                                 f"(= `[`, {size} records with one separator between neighbours, `]`)")
+                return out
+            ctx.count("framing_checked")
+    if use_model and model_records is not None:
+        dm1 = out.view(d1)
         if fmt == "json":
-            try:
-                data = json.load(open(path))
-            except Exception as e:
-                ctx.violation(vc, f"{stage}: the saved file is not JSON: {e}")
-                return None, False
+            if out.sel is not None:
+                # the records of the sample, by position (header, then nodes, then hyperedges in listing order)
+                N = len(d0["nodes"])
+                keep = [0] + [1 + i for i, (n, _) in enumerate(d0["nodes"]) if repr(n) in out.sel[0]] + \
+                       [1 + N + j for j, (k, _, _) in enumerate(d0["edges"]) if repr(k) in out.sel[1]]
+                data = [data[i] for i in keep]
             r = guarded(file_records, enc, data, T)
             recs = r[1] if r[0] == "ok" else None
             if recs is None or recs != model_records:
                 ctx.disagree(vc, f"{stage}: file records {recs!r} != model save {model_records!r}"[:1500])
-                return g, False
+                return out
             ans = drv.batch(["load", "digest"])
             if ans[0] != "ok":
                 ctx.disagree(vc, f"{stage}: model load of its own save answers {ans[0]}")
-                return g, False
-            if parse_driver_digest(ans[1]) != digest_lines(enc, d1, T, typed=True):
+                return out
+            if parse_driver_digest(ans[1]) != digest_lines(enc, dm1, T, typed=True):
                 ctx.disagree(vc, f"{stage}: model load(save c) = {parse_driver_digest(ans[1])!r}, implementation loaded "
-                                 f"{digest_lines(enc, d1, T, typed=True)!r}"[:1500])
-                return g, False
+                                 f"{digest_lines(enc, dm1, T, typed=True)!r}"[:1500])
+                return out
         else:
             ans = drv.batch(["hgx", "digest"])
-            if ans[0] != "ok" or parse_driver_digest(ans[1]) != digest_lines(enc, d1, T):
+            if ans[0] != "ok" or parse_driver_digest(ans[1]) != digest_lines(enc, dm1, T):
                 ctx.disagree(vc, f"{stage}: model loadPickle(expose c) = {ans[0]} {parse_driver_digest(ans[1])!r}, implementation "
-                                 f"loaded {digest_lines(enc, d1, T)!r}"[:1500])
-                return g, False
-        return g, True
-    return g, False
+                                 f"loaded {digest_lines(enc, dm1, T)!r}"[:1500])
+                return out
+        out.mok = True
+    return out
+
+
+def file_shape(path, size):
+    """for the report of a file that does not load: where the text stops being the array of records"""
+    try:
+        with open(path) as f:
+            text = f.read()
+        letters = scan_pieces(text)
+        want = "o" + "is" * (size - 1) + "ic"
+        j = next((i for i, (a, b) in enumerate(zip(letters, want)) if a != b), min(len(letters), len(want)))
+        return (f"; the file has {len(text)} characters, its top-level pieces are {len(letters)} (expected {len(want)}: `[`, "
+                f"{size} records separated by `,`, `]`); first deviation at piece {j} (record {j // 2}): "
+                f"...{letters[max(0, j - 4):j + 4]}... instead of ...{want[max(0, j - 4):j + 4]}...")
+    except Exception as e:  # noqa: BLE001
+        return f"; (file not readable: {e})"
 
 
 def api_lines(enc, T, ops):
+    def edge_line(k, w, md):
+        k = tup(k)
+        if T == "D":
+            it, ex = enc.nodes(k[0][0]) + ">" + enc.nodes(k[0][1]), "-"
+        elif T == "H":
+            it, ex = enc.nodes(k[0]), "-"
+        elif T == "T":
+            it, ex = enc.nodes(k[0]), str(k[1])
+        else:
+            it, ex = enc.nodes(k[0]), str(enc.layer(k[1]))
+        w = "none" if w is None else enc.weight(w)
+        return f"api_edge {it} {ex} {w} {'none' if md is None else enc.meta(md)}"
     lines = []
     for op in ops:
         if op[0] == "node":
             lines.append(f"api_node {enc.node(op[1])} {'none' if op[2] is None else enc.meta(op[2])}")
         elif op[0] == "hset":
             lines.append("api_sethmeta " + enc.meta(op[1]))
+        elif op[0] == "bulk":
+            # a batch is the run of its single calls (weights / metadata left out = None for every hyperedge)
+            for j, k in enumerate(op[1]):
+                lines.append(edge_line(k, None if op[2] is None else op[2][j], None if op[3] is None else op[3][j]))
         else:
-            k = tup(op[1])
-            if T == "D":
-                it, ex = enc.nodes(k[0][0]) + ">" + enc.nodes(k[0][1]), "-"
-            elif T == "H":
-                it, ex = enc.nodes(k[0]), "-"
-            elif T == "T":
-                it, ex = enc.nodes(k[0]), str(k[1])
-            else:
-                it, ex = enc.nodes(k[0]), str(enc.layer(k[1]))
-            w = "none" if op[2] is None else enc.weight(op[2])
-            lines.append(f"api_edge {it} {ex} {w} {'none' if op[3] is None else enc.meta(op[3])}")
+            lines.append(edge_line(op[1], op[2], op[3]))
     return lines
 
 
@@ -854,11 +1631,11 @@ def model_exact(case):
     """histories whose weights the model adds up exactly: every float on the 1/4 grid and small, and no integer beyond
     2**40 next to a float"""
     ws = []
-    for op in list(case["ops"]) + list(case.get("post_a", [])):
+    for op in ctor_ops(case) + list(case["ops"]) + list(case.get("post_a", [])):
         if op[0] in ("edge", "setw"):
             ws.append(op[2])
-        elif op[0] == "bulkw":
-            ws += list(op[2])
+        elif op[0] in ("bulkw", "bulk"):
+            ws += list(op[2] or [])
     flts = [w for w in ws if isinstance(w, float)]
     if any(abs(w) > 2 ** 40 or (Fraction(w) * 4).denominator != 1 for w in flts):
         return False
@@ -866,8 +1643,15 @@ def model_exact(case):
 
 
 def check_object(ctx, drv, case, tmp):
+    rep = case                              # what a report / replay stores (a sized object: its recipe only)
+    if "recipe" in case:
+        r = guarded(expand, case["recipe"], secs=120)
+        if r[0] != "ok":
+            raise RuntimeError("recipe does not expand: " + r[1])
+        case = r[1]
+        ctx.count("sized_" + case_dim(rep))
     T = case["T"]
-    r = guarded(build, case)
+    r = guarded(build, case, secs=120)
     if r[0] != "ok":
         ctx.count("build_failed")
         return
@@ -875,15 +1659,22 @@ def check_object(ctx, drv, case, tmp):
     ctx.count("ops_rejected", failed)
     r = guarded(digest, h, T)
     if r[0] != "ok":
-        ctx.violation(case, f"public queries fail on the built {TNAME[T]}: {r[1]}")
+        ctx.violation(rep, f"public queries fail on the built {TNAME[T]}: {r[1]}")
         return
     d0 = r[1]
     if not wf_digest(d0, T):
         ctx.count("skipped_not_wellformed")
         return
     enc = Enc(list(case["labels"]) + list(case.get("xlabels", [])), case["layers"])
-    key = ("obj", T, json.dumps(hgxv.jsonable(d0), sort_keys=True, default=repr), json.dumps(hgxv.jsonable(case.get("post_a", [])), default=repr))
-    ctx.case(key, is_nontrivial(d0, T), sample=case)
+    if "recipe" in rep:
+        key = ("sized", json.dumps(rep["recipe"], sort_keys=True))
+        rc = 1 + len(d0["nodes"]) + len(d0["edges"])
+        ctx.count("records_beyond_4096" if rc > 4096 else "records_upto_4096")
+        if rc > 10000:
+            ctx.count("records_beyond_10000")
+    else:
+        key = ("obj", T, json.dumps(hgxv.jsonable(d0), sort_keys=True, default=repr), json.dumps(hgxv.jsonable(case.get("post_a", [])), default=repr))
+    ctx.case(key, is_nontrivial(d0, T), sample=rep)
     ctx.count("type_" + T)
     ctx.count("weighted" if d0["weighted"] else "unweighted")
     if d0["weighted"]:
@@ -892,17 +1683,28 @@ def check_object(ctx, drv, case, tmp):
             ctx.count("weight_beyond_2^53")
     if any(op[0] in ("rmedge", "rmnode") for op in case["ops"]):
         ctx.count("with_removals")
+    if case.get("ctor"):
+        ctx.count("through_constructor")
+    if any(op[0] == "bulk" for op in case["ops"]):
+        ctx.count("with_add_edges_batches")
     if not (isinstance(d0["hmeta"], dict) and d0["hmeta"].get("weighted") == d0["weighted"]
             and d0["hmeta"].get("type") == TNAME[T]):
         ctx.count("hmeta_replaced_or_stale")
     exact = model_exact(case)
+    must = must_of(case, T)
     for fmt in ("json", "hgx"):
-        g, mok = save_load(ctx, drv, case, enc, h, T, fmt, tmp, "first")
-        if g is None or "post_a" not in case or ctx.too_many():
+        L = save_load(ctx, drv, case, enc, h, T, fmt, tmp, "first", rep, must)
+        g = L.g
+        if g is None or "post_a" not in case or ctx.too_many() or case.get("post_fmt", fmt) != fmt:
             continue
         # the loaded object is a full object: the same further history on it and on a twin of the original
-        vc = {**case, "format": fmt, "stage": "history after load"}
-        r = guarded(build, case)
+        vc = {**rep, "format": fmt, "stage": "history after load"}
+        g2 = None
+        if case.get("reload"):
+            from hypergraphx.readwrite import load_hypergraph
+            r = guarded(load_hypergraph, L.path, secs=60)
+            g2 = r[1] if r[0] == "ok" else None          # a second object from the same file, kept aside
+        r = guarded(build, case, secs=120)
         if r[0] != "ok":
             continue
         twin = r[1][0]
@@ -920,12 +1722,16 @@ def check_object(ctx, drv, case, tmp):
         dA = compare_live(ctx, vc, twin, g, T, fmt, f"after load(.{fmt}) and the steps {post_a!r}"[:500])
         if dA is None:
             continue
-        if drv is not None and exact and mok:
+        if drv is not None and exact and L.mok:
             ans = drv.batch(api_lines(enc, T, post_a) + ["digest"])
-            mine = digest_lines(enc, dA, T, typed=(fmt == "json"))
+            mine = digest_lines(enc, L.view(dA), T, typed=(fmt == "json"))
             if parse_driver_digest(ans[-1]) != mine:
                 ctx.disagree(vc, f"model add_node/add_edge steps {post_a!r} on its loaded content give "
                                  f"{parse_driver_digest(ans[-1])!r}, implementation {mine!r}"[:1500])
+        ok = True
+        # aliasing probe: a junk attribute written through the public setters into ONE node's, ONE hyperedge's and the
+        # hypergraph's metadata (items whose metadata is empty are preferred: shared default dicts) - on both objects
+        post_b = probe_ops(dA, T) + post_b
         if post_b:
             r0, r1 = guarded(apply_ops, twin, T, post_b), guarded(apply_ops, g, T, post_b)
             if r0[0] != "ok":
@@ -935,25 +1741,67 @@ def check_object(ctx, drv, case, tmp):
                 ctx.violation(vc, f"after load(.{fmt}): the steps {post_a + post_b!r} are rejected differently on the loaded "
                                   f"object ({f1}) and on the original ({f0})"[:700])
                 continue
-            if compare_live(ctx, vc, twin, g, T, fmt, f"after load(.{fmt}) and the steps {post_a + post_b!r}"[:500]) is None:
-                continue
-        # a loaded and further used object is saved and loaded again (same or other format)
-        save_load(ctx, drv, case, enc, g, T, case.get("fmt2", {}).get(fmt, fmt), tmp, "second (object loaded from ." + fmt + ", then used)")
+            ok = compare_live(ctx, vc, twin, g, T, fmt, f"after load(.{fmt}) and the steps {post_a + post_b!r}"[:500]) is not None
+        if ok:
+            # a loaded and further used object is saved and loaded again (same or other format)
+            save_load(ctx, drv, case, enc, g, T, case.get("fmt2", {}).get(fmt, fmt), tmp,
+                      "second (object loaded from ." + fmt + ", then used)", rep)
+        # nothing is shared: using the loaded object changed neither the saved object, nor another object loaded from the
+        # same file, nor what the file gives when it is loaded once more
+        r = guarded(digest, h, T)
+        if r[0] != "ok" or not jeq(r[1], d0):
+            ctx.violation(vc, f"after load(.{fmt}): using the LOADED object changed the SAVED object: "
+                              f"{(compare_digests(d0, r[1], 'saved object') if r[0] == 'ok' else [r[1]])[:1]}"[:700])
+            return
+        if g2 is not None:
+            r = guarded(digest, g2, T)
+            if r[0] != "ok" or not jeq(r[1], L.d1):
+                ctx.violation(vc, f"two objects loaded from the same .{fmt} file are not independent: using the first changed the "
+                                  f"second: {(compare_digests(L.d1, r[1], 'second object') if r[0] == 'ok' else [r[1]])[:1]}"[:700])
+                return
+            from hypergraphx.readwrite import load_hypergraph
+            r = guarded(load_hypergraph, L.path, secs=60)
+            r = guarded(digest, r[1], T) if r[0] == "ok" and r[1] is not None else ("exc", "load raised / returned None: " + str(r[1]))
+            if r[0] != "ok" or not jeq(r[1], L.d1):
+                ctx.violation(vc, f"loading the same .{fmt} file once more (after the first loaded object was used) gives another "
+                                  f"object: {(compare_digests(L.d1, r[1], 'reloaded object') if r[0] == 'ok' else [r[1]])[:1]}"[:700])
+                return
+            ctx.count("reload_checked")
     # add_node / add_edge semantics of the model on the add-only prefix of the history
     if drv is not None and exact:
         check_api_prefix(ctx, drv, case, enc)
+
+
+def probe_ops(d, T):
+    ops = []
+    ns = [n for n, m in d["nodes"] if not m] or [n for n, _ in d["nodes"]]
+    if ns:
+        ops.append(("nattr", ns[len(ns) // 2], "junk-probe", [1, {"x": 2}]))
+    ks = [k for k, _, m in d["edges"] if not strip_reserved(m)] or [k for k, _, _ in d["edges"]]
+    if ks:
+        k = ks[len(ks) // 2]
+        ops.append(("eattr", (k,) if T in "HD" else k, "junk-probe", {"x": [1]}))
+    ops.append(("hattr", "junk-probe", 2))
+    return ops
+
+
+def case_dim(rep):
+    return str(rep["recipe"].get("dim"))
 
 
 def check_api_prefix(ctx, drv, case, enc):
     T = case["T"]
     pre = []
     for op in case["ops"]:
-        if op[0] not in ("node", "edge", "hset"):
+        if op[0] not in ("node", "edge", "hset", "bulk"):
             break
         pre.append(op)
-    if not pre:
+    if not pre and not case.get("ctor"):
         return
+    pre = pre[:400]           # (a sized object: the first 400 steps of its add-only prefix)
     sub = {**case, "ops": pre}
+    sub.pop("post_a", None)
+    sub.pop("post_b", None)
     r = guarded(build, sub)
     if r[0] != "ok":
         return
@@ -962,7 +1810,9 @@ def check_api_prefix(ctx, drv, case, enc):
     if r[0] != "ok":
         return
     d = r[1]
-    lines = [f"api_new {T} {int(case['weighted'])}"] + api_lines(enc, T, pre)
+    if failed and any(op[0] == "bulk" for op in pre):
+        return          # a batch refused as a whole is not the run of its single calls: the twin comparisons cover it
+    lines = [f"api_new {T} {int(case['weighted'])}"] + api_lines(enc, T, ctor_ops(case) + pre)
     lines.append("digest")
     ans = drv.batch(lines)
     ctx.count("api_prefix_checked")
@@ -1028,7 +1878,7 @@ def check_hgr(ctx, drv, case, tmp):
     path = os.path.join(tmp, "f.hgr")
     with open(path, "w") as f:
         f.write(case["text"])
-    r = guarded(load_hypergraph, path)
+    r = guarded(load_hypergraph, path, secs=60 if "sized" in case else 10)
     nontriv = len(case["edges"]) >= 2 and any(ln.strip() == "" or ln.strip().startswith("%") for ln in case["text"].split("\n")[:-1])
     ctx.case(("hgr", case["text"]), nontriv, sample=case)
     ctx.count("hgr_weighted" if case["weighted"] else "hgr_unweighted")
@@ -1049,12 +1899,19 @@ def check_hgr(ctx, drv, case, tmp):
     if d["weighted"] != case["weighted"]:
         ctx.violation(case, f".hgr: is_weighted() = {d['weighted']}, file mode says {case['weighted']}")
     if sorted(got) != sorted(want) or len(got) != len(d["edges"]):
-        ctx.violation(case, f".hgr: hyperedges {sorted(got)} != listed node sets {sorted(want)}")
+        miss = sorted(set(want) - set(got))[:3]
+        extra = sorted(set(got) - set(want))[:3]
+        ctx.violation(case, f".hgr: {len(d['edges'])} hyperedges built, {len(want)} node sets listed; listed but not built: {miss}, "
+                            f"built but not listed: {extra}; all built {sorted(got)}"[:700])
     elif any(not same_weight(got[k], want[k]) for k in want):
-        ctx.violation(case, f".hgr: weights {got} != listed {want}")
+        bad = [k for k in want if not same_weight(got[k], want[k])][:3]
+        ctx.violation(case, f".hgr: weights differ from the listed ones: " + "; ".join(f"{k}: {got[k]!r} != {want[k]!r}" for k in bad))
     if sorted(n for n, _ in d["nodes"]) != sorted({x for _, e in case["edges"] for x in e}):
         ctx.violation(case, ".hgr: node set is not the union of the listed hyperedges")
-    if drv is not None:
+    ntok = sum(len(e) + 1 for _, e in case["edges"])
+    if drv is not None and (len(case["edges"]) > ctx.scale(1100, 4200) or ntok > ctx.scale(5000, 20000)):
+        ctx.count("hgr_beyond_model_size")        # (parseHgr on lists is quadratic: big files go through the oracles only)
+    elif drv is not None:
         toks = hgr_tokenise(case["text"])
         ans = drv.batch(["hgr " + (" ".join(toks) if toks else "")])[0]
         lab = sorted({x for _, e in case["edges"] for x in e})
@@ -1131,7 +1988,7 @@ def check_hif(ctx, drv, case, tmp):
     def run():
         with contextlib.redirect_stdout(io.StringIO()):
             return read_hif(path)
-    r = guarded(run)
+    r = guarded(run, secs=60 if "sized" in case else 10)
     inc_of = {}
     for i in doc["incidences"]:
         inc_of.setdefault(repr(i["edge"]), []).append(i["node"])
@@ -1175,46 +2032,62 @@ def check_hif(ctx, drv, case, tmp):
     # one hyperedge per distinct incidence set
     want_keys = {tuple(sorted(uid[x] for x in s)): es for s, es in sets.items()}
     if sorted(edges) != sorted(want_keys):
-        ctx.violation(case, f"HIF: hyperedges {sorted(edges)} != one per distinct incidence set {sorted(want_keys)}")
+        ctx.violation(case, f"HIF: hyperedges {sorted(edges)} != one per distinct incidence set {sorted(want_keys)}"[:900])
         return
+    from collections import Counter
+    set_of = {e: frozenset(map(repr, ns)) for e, ns in inc_of.items()}
+    key_of = {e: tuple(sorted(uid[x] for x in st)) for e, st in set_of.items()}
     # node records attached to their node
+    node_cnt = Counter(repr(x["node"]) for x in doc["nodes"])
     for rec in doc["nodes"]:
-        same = [x for x in doc["nodes"] if repr(x["node"]) == repr(rec["node"])]
-        if len(same) == 1 and not jeq(nodes[uid[repr(rec["node"])]], rec):
-            ctx.violation(case, f"HIF: node record {rec} is not the metadata of its node: {nodes[uid[repr(rec['node'])]]}")
+        if node_cnt[repr(rec["node"])] == 1 and not jeq(nodes[uid[repr(rec["node"])]], rec):
+            ctx.violation(case, f"HIF: node record {rec} is not the metadata of its node: {nodes[uid[repr(rec['node'])]]}"[:900])
+            break
     for u, m in nodes.items():
-        if repr(name_of[u]) not in {repr(x["node"]) for x in doc["nodes"]} and m != {}:
-            ctx.violation(case, f"HIF: node {name_of[u]} without a node record has metadata {m}")
+        if repr(name_of[u]) not in node_cnt and m != {}:
+            ctx.violation(case, f"HIF: node {name_of[u]} without a node record has metadata {m}"[:900])
+            break
     # edge records attached to the key of their incidence set (unambiguous when no other record shares the set)
+    recs_per_set = Counter(set_of[repr(x["edge"])] for x in doc["edges"] if repr(x["edge"]) in inc_of)
     for rec in doc["edges"]:
         e = repr(rec["edge"])
         if e in inc_of:
-            k = tuple(sorted(uid[repr(x)] for x in inc_of[e]))
-            rivals = [x for x in doc["edges"] if repr(x["edge"]) in inc_of and
-                      frozenset(map(repr, inc_of[repr(x["edge"])])) == frozenset(map(repr, inc_of[e]))]
-            if len(rivals) == 1 and not jeq(edges[k], rec):
-                ctx.violation(case, f"HIF: edge record {rec} is not the metadata of its hyperedge {k}: {edges[k]}")
+            k = key_of[e]
+            if recs_per_set[set_of[e]] == 1 and not jeq(edges[k], rec):
+                ctx.violation(case, f"HIF: edge record {rec} is not the metadata of its hyperedge {k}: {edges[k]}"[:900])
+                break
         else:
-            if not (rec["edge"] in empt and jeq(empt[rec["edge"]], rec)):
-                ctx.violation(case, f"HIF: edge {rec['edge']} has no incidences but is not in the empty-edge table {empt}")
+            try:
+                ok = rec["edge"] in empt and jeq(empt[rec["edge"]], rec)
+            except Exception:  # noqa: BLE001
+                ok = False
+            if not ok:
+                ctx.violation(case, f"HIF: edge {rec['edge']} has no incidences but is not in the empty-edge table {empt}"[:900])
+                break
     if len(empt) != len({repr(e["edge"]) for e in empties}):
-        ctx.violation(case, f"HIF: empty-edge table {empt} != edges without incidences")
+        ctx.violation(case, f"HIF: empty-edge table {empt} != edges without incidences"[:900])
+    recd_edges = {repr(x["edge"]) for x in doc["edges"]}
     for k, es in want_keys.items():
-        if not any(repr(x["edge"]) in es for x in doc["edges"]) and edges[k] != {}:
-            ctx.violation(case, f"HIF: hyperedge {k} without an edge record has metadata {edges[k]}")
+        if not any(e in recd_edges for e in es) and edges[k] != {}:
+            ctx.violation(case, f"HIF: hyperedge {k} without an edge record has metadata {edges[k]}"[:900])
+            break
     # incidence records attached to (key, node)
+    riv = Counter((set_of[repr(i["edge"])], repr(i["node"])) for i in doc["incidences"])
     for i in doc["incidences"]:
-        k = tuple(sorted(uid[repr(x)] for x in inc_of[repr(i["edge"])]))
-        rivals = [x for x in doc["incidences"] if repr(x["node"]) == repr(i["node"]) and
-                  frozenset(map(repr, inc_of[repr(x["edge"])])) == frozenset(map(repr, inc_of[repr(i["edge"])]))]
+        k = key_of[repr(i["edge"])]
         got = incs.get((k, uid[repr(i["node"])]))
-        if len(rivals) == 1 and not jeq(got, i):
-            ctx.violation(case, f"HIF: incidence record {i} is not attached to ({k}, {uid[repr(i['node'])]}): {got}")
-    if len(incs) != len({(tuple(sorted(uid[repr(x)] for x in inc_of[repr(i['edge'])])), uid[repr(i['node'])]) for i in doc["incidences"]}):
+        if riv[(set_of[repr(i["edge"])], repr(i["node"]))] == 1 and not jeq(got, i):
+            ctx.violation(case, f"HIF: incidence record {i} is not attached to ({k}, {uid[repr(i['node'])]}): {got}"[:900])
+            break
+    if len(incs) != len({(key_of[repr(i['edge'])], uid[repr(i['node'])]) for i in doc["incidences"]}):
         ctx.violation(case, "HIF: incidence table has entries no incidence record names")
     if "metadata" in doc and not jeq(hm, doc["metadata"]):
         ctx.violation(case, f"HIF: hypergraph metadata {hm} != document metadata")
-    if drv is not None:
+    big_edge = max([len(v) for v in inc_of.values()] + [0])
+    if drv is not None and (big_edge > 300 or len(doc["incidences"]) > ctx.scale(3000, 12000)
+                            or len(doc["nodes"]) + len(doc["edges"]) > ctx.scale(4200, 12000)):
+        ctx.count("hif_beyond_model_size")        # (readHif on lists is cubic in the size of an incidence set)
+    elif drv is not None:
         # names -> tokens in order of first appearance anywhere; records -> their index (1-based per list)
         ntok, etok = {}, {}
         for i in doc["incidences"]:
@@ -1236,14 +2109,21 @@ def check_hif(ctx, drv, case, tmp):
                (",".join(str(et[repr(x["edge"])]) for x in doc["edges"]) or "-")
         ans = drv.batch([line])[0]
         # implementation in the same format: nodes uid:recIndex(0 = {}), keys key:recIndex, incidences key/uid:recIndex, empties name:recIndex
+        tables = {}
+
         def idx(lst, m):
-            for j, x in enumerate(lst):
-                if x is m or jeq(x, m) and sum(1 for y in lst if jeq(y, m)) == 1:
-                    return j + 1
+            """1-based position of the record m in its list (0 = the empty dict of a record-less item); records with
+            equal content: the last one (what the reader keeps)"""
+            pos = tables.get(id(lst))
+            if pos is None:
+                pos = tables[id(lst)] = {}
+                for j, x in enumerate(lst):
+                    pos.setdefault(norm(x), []).append(j + 1)
+            js = pos.get(norm(m))
+            if js and len(js) == 1:
+                return js[0]
             if m == {}:
                 return 0
-            # duplicates with equal content: take the last equal one (what the reader keeps)
-            js = [j + 1 for j, x in enumerate(lst) if jeq(x, m)]
             return js[-1] if js else 999
         a = ",".join(f"{u}:{idx(doc['nodes'], m)}" for u, m in nodes.items()) or "-"
         b = ",".join(f"{'.'.join(map(str, k))}:{idx(doc['edges'], m)}" for k, m in edges.items()) or "-"
@@ -1256,29 +2136,181 @@ def check_hif(ctx, drv, case, tmp):
 
 # ------------------------------------------------------------------------------------------
 
+def gen_hgr_sized(rng, dim, size):
+    """a .hgr file in which one size is exactly `size`: edges (hyperedge lines), edge_size (nodes on one line: a line far
+    beyond the 8 KiB read buffer), comments (comment / blank lines in a row), nodeweights (node-weight lines after the
+    hyperedges), line_len (characters of one comment line)"""
+    weighted = rng.random() < 0.5
+    E, n = rng.randint(3, 8), rng.randint(4, 9)
+    if dim == "edges":
+        E, n = size, rng.randint(30, 300)
+    elif dim == "edge_size":
+        n = size + rng.randint(0, 3)
+    elif dim == "nodeweights":
+        n = size
+    edges, seen = [], set()
+    tries = 0
+    while len(edges) < E and tries < 30 * E:
+        tries += 1
+        if dim == "edge_size" and not edges:
+            e = rng.sample(range(1, n + 1), size)
+        else:
+            e = rng.sample(range(1, n + 1), rng.randint(1, min(4, n)))
+        if frozenset(e) in seen and (weighted or rng.random() < 0.9):
+            continue
+        seen.add(frozenset(e))
+        edges.append((rng.choice([1, 2, 7, 255, 256, 257, 65536, 2 ** 31, 2 ** 53 + 1, 10 ** 20]), e))
+    mode = rng.choice([1, 11]) if weighted else rng.choice([None, 0, 10])
+    out = ["% sized " + dim]
+    if dim == "line_len":
+        out.append("%" + "c" * (size - 1))
+    if dim == "comments":
+        out += [rng.choice(["% c", "", "  ", "%", "\t"]) for _ in range(size - 1)]
+    out.append(f"{len(edges)} {n}" + ("" if mode is None else f" {mode}"))
+    for j, (w, e) in enumerate(edges):
+        if dim == "comments" and j == 1:
+            out += [rng.choice(["% c", "", " "]) for _ in range(size)]
+        if rng.random() < 0.02:
+            out.append(rng.choice(["% comment", "", "   "]))
+        toks = ([str(w)] if weighted else []) + [str(x) for x in e]
+        out.append(rng.choice(["", " "]) + rng.choice([" ", " ", "  "]).join(toks) + rng.choice(["", " "]))
+    if mode in (10, 11) or dim == "nodeweights":
+        for _ in range(n if dim == "nodeweights" else rng.randint(0, min(n, 9))):
+            out.append(str(rng.randint(1, 5)))
+    return {"text": "\n".join(out) + ("\n" if rng.random() < 0.8 else ""), "weighted": weighted,
+            "edges": [(w, e) for w, e in edges], "n": n, "sized": [dim, size]}
+
+
+def hgr_plan(rng, tier):
+    dims = ["edges", "edge_size", "comments", "nodeweights", "line_len"]
+    plan = []
+    if tier == "thorough":
+        for dim in dims:
+            for s in PW2_QUICK + PW2_MORE + (PW2_HUGE if dim != "edge_size" else []):
+                plan.append(gen_hgr_sized(rng, dim, s))
+        plan.append(gen_hgr_sized(rng, "edges", rng.randint(70000, 90000)))
+    else:
+        for dim in dims:
+            plan.append(gen_hgr_sized(rng, dim, rng.choice(PW2_QUICK[:3])))
+            plan.append(gen_hgr_sized(rng, dim, rng.choice(PW2_QUICK[3:] + [8191, 8192, 8193])))
+        plan.append(gen_hgr_sized(rng, "edges", rng.randint(5001, 12000)))
+    return plan
+
+
+def gen_hif_sized(rng, dim, size):
+    """a HIF document in which one size is exactly `size`: nodes (node records), edges (edge records with incidences),
+    incidences (incidences of one edge), shared (edges sharing one incidence set), empties (edges without incidences),
+    name_len (characters of the node / edge names)"""
+    nn, ne = rng.randint(3, 8), rng.randint(2, 6)
+    if dim == "nodes":
+        nn = size
+    elif dim == "edges":
+        ne, nn = size, rng.randint(20, 60)
+    elif dim == "incidences":
+        nn = size + rng.randint(0, 3)
+    style = rng.choice(["str", "int", "uid"])
+    if dim == "name_len":
+        nnames = ["n" * (size - 1) + c for c in "abcdefgh"[:nn]]
+        enames = ["e" * (size - 1) + c for c in "abcdef"[:ne]]
+    elif style == "str":
+        nnames, enames = ["n%d" % i for i in rng.sample(range(3 * nn), nn)], ["e%d" % i for i in rng.sample(range(3 * ne + 9), ne)]
+    elif style == "int":
+        nnames, enames = rng.sample(range(10, 10 + 4 * nn), nn), rng.sample(range(10 ** 6, 10 ** 6 + 4 * ne + 9), ne)
+    else:
+        nnames, enames = rng.sample(range(nn), nn), rng.sample(range(ne), ne)
+    inc, sets, seen = [], [], set()
+    if dim == "empties":
+        extra = ["z%d" % i for i in range(size)] if style == "str" or dim == "name_len" else list(range(10 ** 7, 10 ** 7 + size))
+    else:
+        extra = []
+    for j, e in enumerate(enames):
+        if dim == "incidences" and j == 0:
+            st = rng.sample(nnames, size)
+        elif dim == "shared" and sets:
+            st = list(sets[0])
+        else:
+            st = rng.sample(nnames, rng.randint(1, min(4, nn)))
+            if dim not in ("shared",) and rng.random() < 0.1:
+                continue
+        sets.append(tuple(st))
+        for x in st:
+            inc.append({"edge": e, "node": x, **({"weight": rng.choice([1, 2.5, 0])} if rng.random() < 0.4 else {})})
+    if dim == "shared":
+        base = list(sets[0]) if sets else nnames[:2]
+        more = ["s%d" % i for i in range(size - 1)] if style == "str" or dim == "name_len" else list(range(2 * 10 ** 7, 2 * 10 ** 7 + size - 1))
+        for e in more:
+            for x in base:
+                inc.append({"edge": e, "node": x})
+        enames = enames + more
+    rng.shuffle(inc)
+    node_recs = [{"node": x, **({"attrs": {"name": str(x)[:12]}} if rng.random() < 0.5 else {})} for x in nnames if rng.random() < 0.9]
+    edge_recs = [{"edge": e, **({"attrs": {"kind": rng.choice(["p", "q"])}} if rng.random() < 0.5 else {})}
+                 for e in enames + extra if e in extra or rng.random() < 0.8]
+    rng.shuffle(node_recs)
+    rng.shuffle(edge_recs)
+    doc = {"incidences": inc, "nodes": node_recs, "edges": edge_recs}
+    if rng.random() < 0.5:
+        doc["network-type"] = "undirected"
+    if rng.random() < 0.5:
+        doc["metadata"] = {"name": "sized " + dim, "v": [size]}
+    return {"doc": doc, "sized": [dim, size]}
+
+
+def hif_plan(rng, tier):
+    dims = ["nodes", "edges", "incidences", "shared", "empties", "name_len"]
+    plan = []
+    if tier == "thorough":
+        for dim in dims:
+            for s in PW2_QUICK + PW2_MORE + (PW2_HUGE if dim in ("nodes", "name_len") else []):
+                if dim != "incidences" or s <= 4097:
+                    plan.append(gen_hif_sized(rng, dim, s))
+    else:
+        for dim in dims:
+            plan.append(gen_hif_sized(rng, dim, rng.choice(PW2_QUICK[:3])))
+            plan.append(gen_hif_sized(rng, dim, rng.choice(PW2_QUICK[3:])))
+    return plan
+
+
 def run(ctx):
     drv = ctx.driver() if ctx.model_available and not os.environ.get("C06_NODRV") else None
     tmp = tempfile.mkdtemp(prefix="hgxv_c06_")
     try:
-        n_obj = ctx.scale(1600, 40000)
-        n_hgr = ctx.scale(700, 12000)
-        n_hif = ctx.scale(700, 12000)
+        n_obj = ctx.scale(1100, 20000)
+        n_hgr = ctx.scale(500, 12000)
+        n_hif = ctx.scale(500, 12000)
         plan = [("obj", n_obj), ("hgr", n_hgr), ("hif", n_hif)]
+        sized = [{"recipe": r} for r in recipe_plan(ctx.rng, ctx.tier)]
+        n_must = N_MUST["thorough" if ctx.tier == "thorough" else "quick"]      # the big objects every run has
+        sized_hgr = hgr_plan(ctx.rng, ctx.tier)
+        sized_hif = hif_plan(ctx.rng, ctx.tier)
         # interleave so that every kind is reached under a time limit
-        todo = [k for k, n in plan for _ in range(n)]
+        todo = [(k, None) for k, n in plan for _ in range(n)] + [("sized", c) for c in sized[n_must:]] + \
+               [("hgr", c) for c in sized_hgr] + [("hif", c) for c in sized_hif]
         ctx.rng.shuffle(todo)
-        # the four types first, once each, deterministic start
+        # the four types first, once each, deterministic start; then the big objects every run has
         for T in TYPES:
             check_object(ctx, drv, gen_case(ctx.rng, T), tmp)
-        for kind in todo:
+        todo = [("sized", c) for c in sized[:n_must]] + todo
+
+        def stop():
+            # a broken correspondence alone does not stop the search for a failing input
+            return len(ctx.violations) >= 5 or len(ctx.disagreements) >= 60 or (ctx.time_left() is not None and ctx.time_left() < 5)
+        import time
+        spent = {}
+        for kind, c in todo:
+            t_case = time.time()
             if kind == "obj":
                 check_object(ctx, drv, gen_case(ctx.rng), tmp)
+            elif kind == "sized":
+                check_object(ctx, drv, c, tmp)
             elif kind == "hgr":
-                check_hgr(ctx, drv, gen_hgr(ctx.rng), tmp)
+                check_hgr(ctx, drv, c if c is not None else gen_hgr(ctx.rng), tmp)
             else:
-                check_hif(ctx, drv, gen_hif(ctx.rng), tmp)
-            # a broken correspondence alone does not stop the search for a failing input
-            if len(ctx.violations) >= 5 or len(ctx.disagreements) >= 60 or (ctx.time_left() is not None and ctx.time_left() < 5):
+                check_hif(ctx, drv, c if c is not None else gen_hif(ctx.rng), tmp)
+            nm = "seconds_" + kind + ("_sized" if c is not None and kind != "sized" else "")
+            spent[nm] = spent.get(nm, 0.0) + time.time() - t_case
+            ctx.extra[nm] = round(spent[nm], 1)
+            if stop():
                 break
     finally:
         shutil.rmtree(tmp, ignore_errors=True)
@@ -1297,7 +2329,8 @@ def replay(ctx, case):
             case = dict(case)
             case.pop("format", None)
             case.pop("stage", None)
-            case["ops"] = [tuple(op) for op in case["ops"]]
+            if "ops" in case:
+                case["ops"] = [tuple(op) for op in case["ops"]]
             check_object(ctx, drv, case, tmp)
     finally:
         shutil.rmtree(tmp, ignore_errors=True)
